@@ -45,9 +45,9 @@ Definition Dir (X Y : node) (cxy cyx : list msg) (cpx : list N) : Prop :=
   (can_send Y xn = false -> forall p s, Rk Y xn p s = false) /\
   (forall id key, nlk id (n_pid X) = Some key -> In id cpx) /\
   (can_send X yn = true -> forall id ok, In (MSubReply id ok) cyx -> exists key, nlk id (n_pid X) = Some key) /\
-  (forall id p s f, In (MSubReq id p s f) cxy -> nodot p = true /\ nodot s = true) /\
+  (forall id p s f, In (MSubReq id p s f) cxy -> nodot p = true) /\
   (forall p s, In (MRemoved p s) cyx -> nodot p = true) /\
-  (forall p s, nodot p = true -> nodot s = true -> KeyInv X Y cxy cyx p s).
+  (forall p s, nodot p = true -> KeyInv X Y cxy cyx p s).
 
 Lemma filter_app_nil {A} (f : A -> bool) l app : (forall m, In m app -> f m = false) -> filter f (l ++ app) = filter f l.
 Proof.
@@ -85,7 +85,7 @@ Proof.
   - intros Hu id ok Hin. destruct (D5 Hu id ok Hin) as [key Hkey]. exists key. rewrite Hpid. exact Hkey.
   - intros id p s f Hin. apply in_app_iff in Hin as [Hin|Hin]; [eapply D6; eauto|]. specialize (Happ _ Hin). discriminate.
   - exact D7.
-  - intros p s Hp Hs. specialize (DI p s Hp Hs). unfold KeyInv in *. rewrite Hn. repeat rewrite Hc. intro Hu. specialize (DI Hu).
+  - intros p s Hp. specialize (DI p s Hp). unfold KeyInv in *. rewrite Hn. repeat rewrite Hc. intro Hu. specialize (DI Hu).
     destruct (Hk p s) as [HL HP]. rewrite HP, HL.
     rewrite (filter_app_nil (is_kreq p s)) by (intros m Hm; apply is_kreq_req, Happ, Hm).
     destruct (Pk X (n_name Y) p s) as [q|]; [|exact DI].
@@ -108,7 +108,7 @@ Proof.
   - intros Hu id ok Hin. apply in_app_iff in Hin as [Hin|Hin]; [eapply D5; eauto|]. destruct (Happ _ Hin) as [H _]. discriminate.
   - exact D6.
   - intros p s Hin. apply in_app_iff in Hin as [Hin|Hin]; [eapply D7; eauto|]. destruct (Happ _ Hin) as [_ H]. discriminate.
-  - intros p s Hp Hs. specialize (DI p s Hp Hs). unfold KeyInv in *. rewrite Hn. repeat rewrite Hc. intro Hu. specialize (DI Hu).
+  - intros p s Hp. specialize (DI p s Hp). unfold KeyInv in *. rewrite Hn. repeat rewrite Hc. intro Hu. specialize (DI Hu).
     rewrite HR.
     assert (Hrm : forall l, existsb (is_removed p s) (l ++ app) = existsb (is_removed p s) l)
       by (intro l; apply existsb_app_false; intros m Hm; apply is_removed_any, (Happ m Hm)).
@@ -129,7 +129,7 @@ Proof.
   intros (D1 & D2 & D3 & D5 & D6 & D7 & DI) Hm. unfold Dir.
   split; [exact D1|]. split; [exact D2|]. split; [exact D3|]. split; [exact D5|].
   split; [intros id p s f Hin; eapply D6; right; exact Hin|]. split; [exact D7|].
-  intros p s Hp Hs. specialize (DI p s Hp Hs). unfold KeyInv in *. intro Hu. specialize (DI Hu).
+  intros p s Hp. specialize (DI p s Hp). unfold KeyInv in *. intro Hu. specialize (DI Hu).
   simpl in DI. rewrite (is_kreq_req p s m Hm) in DI. exact DI.
 Qed.
 
@@ -140,7 +140,7 @@ Proof.
   split; [exact D1|]. split; [exact D2|]. split; [exact D3|].
   split; [intros Hu id ok Hin; eapply D5; [exact Hu | right; exact Hin]|].
   split; [exact D6|]. split; [intros p s Hin; eapply D7; right; exact Hin|].
-  intros p s Hp Hs. specialize (DI p s Hp Hs). unfold KeyInv in *. intro Hu. specialize (DI Hu).
+  intros p s Hp. specialize (DI p s Hp). unfold KeyInv in *. intro Hu. specialize (DI Hu).
   destruct (Pk X (n_name Y) p s) as [q|].
   - destruct DI as (id & Hid & [Ha|Hb]); exists id; (split; [exact Hid|]).
     + left. simpl in Ha. rewrite (is_reply_any id m Hm1) in Ha. exact Ha.
@@ -186,16 +186,1167 @@ Proof.
   intros HD HX Hu r. pose proof HD as (D1 & D2 & D3 & D5 & D6 & D7 & DI).
   destruct (sub_request_spec Y (n_name X) id p0 s0 f) as (S1 & S2 & S3 & S4 & S5 & S6 & S7 & S8 & S9 & S10).
   fold r in S1, S2, S3, S4, S5, S6, S7, S8, S9, S10.
-  destruct (D6 id p0 s0 f (or_introl eq_refl)) as [Hp0 Hs0].
+  pose proof (D6 id p0 s0 f (or_introl eq_refl)) as Hp0.
   assert (Hc : forall c, can_send (fst r) c = can_send Y c) by (intro c; unfold can_send; rewrite S4; reflexivity).
   assert (Hmsgs : msgs_of (snd r) = [MSubReply id (if f then smem str_eqb p0 (n_objs Y) else true)]).
   { rewrite S8. unfold send_to. rewrite Hu. reflexivity. }
   rewrite Hmsgs. set (okf := if f then smem str_eqb p0 (n_objs Y) else true) in *.
   destruct HX as (HTX & HX2 & HX3 & HX4 & HX5). pose proof HTX as (HX0 & HPC & HPV & _).
+  unfold Dir. rewrite S5. repeat rewrite Hc.
+  split; [exact D1|]. split; [intro Hd; congruence|]. split; [exact D3|].
+  destruct (can_send X (n_name Y)) eqn:Hxup.
+  2: { split; [discriminate|]. split; [intros i p s g Hin; eapply D6; right; exact Hin|].
+       split; [intros p s Hin; apply in_app_iff in Hin as [Hin|Hin]; [eapply D7; eauto | simpl in Hin; destruct Hin as [Hin|[]]; discriminate]|].
+       intros p s Hp. unfold KeyInv. rewrite S5, Hxup. discriminate. }
   (* the request at the head is the pending request of (p0, s0) *)
-  assert (Hxup : can_send X (n_name Y) = true).
-  { destruct (can_send X (n_name Y)) eqn:E; [reflexivity|]. exfalso.
-    (* x is down: no statement needed, but then nothing is claimed; derive from D1 that it has no pending: the request is stale.
-       We cannot exclude a stale request, so this lemma is only used when x is up or the claim is vacuous. *)
-    admit_here. }
-Abort.
+  pose proof (DI p0 s0 Hp0) as K0. unfold KeyInv in K0. specialize (K0 Hxup).
+  assert (Hhead : is_kreq p0 s0 (MSubReq id p0 s0 f) = true) by (simpl; rewrite !str_eqb_refl; reflexivity).
+  cbn [filter] in K0. rewrite Hhead in K0.
+  destruct (Pk X (n_name Y) p0 s0) as [q0|] eqn:EP0; [|destruct K0 as [K0 _]; discriminate].
+  destruct K0 as (id0 & Hid0 & [(Ka & Kb & Kc)|(Ka & _)]); [|discriminate].
+  injection Ka as Eid Ef Erest. subst id0.
+  split; [|split; [|split]].
+  - intros _ i ok Hin. apply in_app_iff in Hin as [Hin|Hin]; [eapply D5; eauto|]. simpl in Hin. destruct Hin as [Hin|[]]. inversion Hin; subst. eauto.
+  - intros i p s g Hin. eapply D6. right. exact Hin.
+  - intros p s Hin. apply in_app_iff in Hin as [Hin|Hin]; [eapply D7; eauto | simpl in Hin; destruct Hin as [Hin|[]]; discriminate].
+  - intros p s Hp. unfold KeyInv. rewrite S5. repeat rewrite Hc. intros _.
+    destruct (pair_dec p s p0 s0) as [E|Hne].
+    + inversion E; subst p s. rewrite EP0. exists id. split; [exact Hid0|]. right. split; [exact Erest|].
+      exists cyx, okf, []. split; [reflexivity|]. split; [exact Kb|]. split; [reflexivity|].
+      intros _. rewrite S9. simpl. rewrite andb_true_r. rewrite <- Ef. destruct f.
+      * rewrite (Kc (eq_sym Ef)). unfold okf. rewrite orb_false_r. reflexivity.
+      * reflexivity.
+    + pose proof (DI p s Hp) as K. unfold KeyInv in K. specialize (K Hxup).
+      cbn [filter] in K. rewrite (is_kreq_other p s id p0 s0 f Hne) in K.
+      rewrite (S10 (n_name X) p s (key2_neq p s p0 s0 Hp Hp0 Hne)).
+      assert (Hrm : forall l, existsb (is_removed p s) (l ++ [MSubReply id okf]) = existsb (is_removed p s) l)
+        by (intro l; apply existsb_app_false; intros m [<-|[]]; reflexivity).
+      destruct (Pk X (n_name Y) p s) as [q|] eqn:EP.
+      * destruct K as (id1 & Hid1 & Hcase). exists id1. split; [exact Hid1|].
+        assert (Hidne : id1 <> id).
+        { intros ->. rewrite Hid0 in Hid1. inversion Hid1 as [E]. apply key3_inj in E as (_ & -> & ->); auto. }
+        assert (Hrp : forall l, existsb (is_reply id1) (l ++ [MSubReply id okf]) = existsb (is_reply id1) l).
+        { intro l. apply existsb_app_false. intros m [<-|[]]. simpl. apply N.eqb_neq. exact Hidne. }
+        destruct Hcase as [(A1 & A2 & A3)|(B0 & pre & ok & suf & E & B1 & B2 & B3)].
+        -- left. rewrite Hrp. auto.
+        -- right. split; [exact B0|]. exists pre, ok, (suf ++ [MSubReply id okf]).
+           rewrite E, <- app_assoc. simpl. split; [reflexivity|]. split; [exact B1|]. split; [rewrite Hrp; exact B2|].
+           rewrite Hrm. exact B3.
+      * rewrite Hrm. exact K.
+Qed.
+
+(* ---- X handles the reply to its pending request ---- *)
+Lemma NodeOK_pending X o id key :
+  NodeOK X o -> nlk id (n_pid X) = Some key ->
+  exists q, slk key (n_pname X) = Some q /\ key = key3 o (pq_pub q) (pq_sig q) /\ nodot (pq_pub q) = true /\
+            pq_ctx q = o /\ (pq_sub q = true -> pq_recv q <> []) /\ id < n_next X.
+Proof.
+  intros (HT & _ & _ & _ & H5) Hid. destruct HT as (_ & (P1 & _ & _ & P4) & HPV & _).
+  destruct (P1 _ _ Hid) as [q Hq]. destruct (HPV _ _ Hq) as (V1 & V2 & V3 & V4 & V5).
+  exists q. rewrite <- (H5 _ _ Hq). repeat split; auto. eapply P4; eauto.
+Qed.
+
+Lemma dir_deliver_reply X Y cxy id ok rest cpx :
+  Dir X Y cxy (MSubReply id ok :: rest) cpx ->
+  NodeOK X (n_name Y) -> can_send X (n_name Y) = true ->
+  let r := handle_reply X id ok in
+  Dir (fst r) Y (cxy ++ msgs_of (snd r)) rest (sdel N.eqb id cpx ++ reqids_of (snd r)).
+Proof.
+  intros HD HX Hu r. pose proof HD as (D1 & D2 & D3 & D5 & D6 & D7 & DI).
+  destruct (D5 Hu id ok (or_introl eq_refl)) as [key Hid].
+  destruct (NodeOK_pending X (n_name Y) id key HX Hid) as (q & Hq & Hkey & Hpub & Hctx & Hrecv & Hlt).
+  set (p0 := pq_pub q) in *. set (s0 := pq_sig q) in *.
+  pose proof HX as (HTX & HX2 & HX3 & HX4 & HX5). pose proof HTX as (HX0 & (P1 & P2 & P3 & P4) & HPV & _).
+  (* the reply at the head is the one the invariant of (p0, s0) speaks about *)
+  pose proof (DI p0 s0 Hpub) as K0. unfold KeyInv in K0. specialize (K0 Hu).
+  unfold Pk in K0. rewrite <- Hkey, Hq in K0. destruct K0 as (id0 & Hid0 & Hcase).
+  assert (id0 = id) by (eapply P3; eauto). subst id0.
+  destruct Hcase as [(_ & Kb & _)|(Ka & pre & ok' & suf & E & B1 & B2 & B3)].
+  { simpl in Kb. rewrite N.eqb_refl in Kb. discriminate. }
+  destruct pre as [|m pre'].
+  2: { simpl in E. inversion E; subst m. simpl in B1. rewrite N.eqb_refl in B1. discriminate. }
+  simpl in E. inversion E; subst ok' suf. clear E B1.
+  pose proof (handle_reply_spec X id ok key q HTX Hid Hq) as Hs. cbv zeta in Hs. fold r in Hs.
+  destruct Hs as (S1 & S2 & S3 & S4). rewrite Hctx, Hu in S4.
+  assert (Hc : forall c, can_send (fst r) c = can_send X c) by (intro c; apply can_send_same; exact S1).
+  assert (Hn : n_name (fst r) = n_name X) by apply S1.
+  assert (Hothers : forall p s, nodot p = true -> (p, s) <> (p0, s0) ->
+            Lk (fst r) (n_name Y) p s = Lk X (n_name Y) p s /\ Pk (fst r) (n_name Y) p s = Pk X (n_name Y) p s).
+  { intros p s Hp Hne. apply S2. rewrite Hkey. apply key3_neq; assumption. }
+  assert (Hrest_ids : forall i o, In (MSubReply i o) rest -> i <> id /\ i < n_next X /\ exists k, nlk i (n_pid X) = Some k).
+  { intros i o Hin. destruct (D5 Hu i o (or_intror Hin)) as [k Hk]. split; [|split; [eapply P4; eauto | eauto]].
+    intros ->. assert (existsb (is_reply id) rest = true); [|congruence].
+    apply existsb_exists. exists (MSubReply id o). split; [exact Hin | simpl; apply N.eqb_refl]. }
+  (* what happened to the tables, by case *)
+  assert (Hcases :
+    (snd r = [] /\ Pk (fst r) (n_name Y) p0 s0 = None /\
+     (forall id', id' <> id -> nlk id' (n_pid (fst r)) = nlk id' (n_pid X)) /\
+     Lk (fst r) (n_name Y) p0 s0 = (if pq_sub q && ok then Some (pq_recv q) else None) /\
+     (pq_sub q = false -> pq_recv q = [])) \/
+    (pq_sub q = false /\ snd r = [OSend (n_name Y) (MSubReq (n_next X) p0 s0 true)] /\
+     Pk (fst r) (n_name Y) p0 s0 = Some (mkPreq (n_name Y) p0 s0 true (pq_recv q) (pq_wait q)) /\
+     nlk (n_next X) (n_pid (fst r)) = Some key /\
+     (forall id', id' <> id -> id' <> n_next X -> nlk id' (n_pid (fst r)) = nlk id' (n_pid X)) /\
+     Lk (fst r) (n_name Y) p0 s0 = None)).
+  { unfold Pk, Lk. rewrite <- Hkey. destruct (pq_sub q) eqn:Esub.
+    - left. destruct S4 as (A1 & A2 & A3 & A4). simpl. repeat split; auto. discriminate.
+    - destruct (is_nil (pq_recv q)) eqn:En.
+      + left. destruct S4 as (A1 & A2 & A3 & A4). simpl. repeat split; auto. intros _. apply is_nil_true. exact En.
+      + right. cbv zeta in S4. destruct S4 as (A1 & A2 & A3 & A4 & A5). repeat split; auto. }
+  unfold Dir. rewrite Hn. repeat rewrite Hc.
+  split; [intro Hd; congruence|]. split; [exact D2|].
+  split; [|split; [|split; [|split]]].
+  - (* D3 *) intros i k Hi. apply in_app_iff.
+    destruct Hcases as [(C1 & C2 & C3 & C4 & C5)|(C0 & C1 & C2 & C3 & C4 & C5)].
+    + left. destruct (N.eq_dec i id) as [->|Hne]; [rewrite S3 in Hi; discriminate|].
+      rewrite C3 in Hi by exact Hne. apply (In_sdel N.eqb N.eqb_eq). split; [exact Hne | eapply D3; eauto].
+    + destruct (N.eq_dec i (n_next X)) as [->|Hne2]; [right; rewrite C1; simpl; auto|].
+      left. destruct (N.eq_dec i id) as [->|Hne]; [rewrite S3 in Hi; discriminate|].
+      rewrite C4 in Hi by assumption. apply (In_sdel N.eqb N.eqb_eq). split; [exact Hne | eapply D3; eauto].
+  - (* D5 *) intros _ i o Hin. destruct (Hrest_ids i o Hin) as (Hne & Hlt' & k & Hk).
+    exists k. destruct Hcases as [(C1 & C2 & C3 & C4 & C5)|(C0 & C1 & C2 & C3 & C4 & C5)].
+    + rewrite C3 by exact Hne. exact Hk.
+    + rewrite C4; [exact Hk | exact Hne | lia].
+  - (* D6 *) intros i p s f Hin. apply in_app_iff in Hin as [Hin|Hin]; [eapply D6; eauto|].
+    destruct Hcases as [(C1 & _)|(C0 & C1 & _)]; rewrite C1 in Hin; simpl in Hin; [destruct Hin|].
+    destruct Hin as [Hin|[]]. inversion Hin; subst. exact Hpub.
+  - (* D7 *) intros p s Hin. eapply D7. right. exact Hin.
+  - (* keys *) intros p s Hp. unfold KeyInv. rewrite Hn. repeat rewrite Hc. intros _.
+    destruct (pair_dec p s p0 s0) as [E|Hne].
+    + inversion E; subst p s. clear E.
+      destruct Hcases as [(C1 & C2 & C3 & C4 & C5)|(C0 & C1 & C2 & C3 & C4 & C5)].
+      * rewrite C2, C1. simpl. rewrite app_nil_r. split; [exact Ka|]. intro Hy. specialize (B3 Hy). rewrite C4.
+        destruct (existsb (is_removed p0 s0) rest).
+        -- rewrite B3. rewrite andb_false_r. reflexivity.
+        -- rewrite B3. simpl. rewrite andb_true_r. destruct (pq_sub q && ok); split; intro H; try discriminate; try congruence; try reflexivity.
+      * rewrite C2, C1. simpl. exists (n_next X). rewrite <- Hkey. split; [exact C3|]. left.
+        rewrite filter_app, Ka. simpl. rewrite !str_eqb_refl. simpl. split; [reflexivity|]. split.
+        -- destruct (existsb (is_reply (n_next X)) rest) eqn:Ex; [|reflexivity]. exfalso.
+           apply existsb_exists in Ex as [m [Hm Hx]]. destruct m; simpl in Hx; try discriminate. apply N.eqb_eq in Hx. subst.
+           destruct (Hrest_ids _ _ Hm) as (_ & Hlt' & _). lia.
+        -- intros _. destruct (can_send Y (n_name X)) eqn:Hy; [|apply D2; reflexivity].
+           rewrite (B3 eq_refl), C0. reflexivity.
+    + destruct (Hothers p s Hp Hne) as [HL HP]. rewrite HL, HP.
+      pose proof (DI p s Hp) as K. unfold KeyInv in K. specialize (K Hu).
+      assert (Hkr : filter (is_kreq p s) (cxy ++ msgs_of (snd r)) = filter (is_kreq p s) cxy).
+      { apply filter_app_nil. intros m Hm.
+        destruct Hcases as [(C1 & _)|(C0 & C1 & _)]; rewrite C1 in Hm; simpl in Hm; [destruct Hm|].
+        destruct Hm as [<-|[]]. apply is_kreq_other. exact Hne. }
+      rewrite Hkr.
+      destruct (Pk X (n_name Y) p s) as [q1|] eqn:EP.
+      * destruct K as (id1 & Hid1 & Hcase). exists id1.
+        assert (Hne1 : id1 <> id).
+        { intros ->. rewrite Hid in Hid1. inversion Hid1 as [E1]. rewrite Hkey in E1. apply key3_inj in E1 as (_ & E2 & E3); auto. congruence. }
+        assert (Hlt1 : id1 < n_next X) by (eapply P4; eauto).
+        split.
+        -- destruct Hcases as [(C1 & C2 & C3 & C4 & C5)|(C0 & C1 & C2 & C3 & C4 & C5)]; [rewrite C3 by exact Hne1 | rewrite C4; [|exact Hne1|lia]]; exact Hid1.
+        -- destruct Hcase as [(A1 & A2 & A3)|(B0 & pre & ok1 & suf & E1 & F1 & F2 & F3)].
+           ++ left. split; [exact A1|]. split; [|exact A3]. simpl in A2. apply orb_false_iff in A2 as [_ A2]. exact A2.
+           ++ right. split; [exact B0|]. destruct pre as [|m pre'].
+              ** simpl in E1. inversion E1; subst. contradiction.
+              ** simpl in E1. inversion E1; subst. exists pre', ok1, suf. split; [reflexivity|].
+                 simpl in F1. apply orb_false_iff in F1 as [_ F1]. auto.
+      * simpl in K. exact K.
+Qed.
+
+Lemma is_removed_other p s p0 s0 : (p, s) <> (p0, s0) -> is_removed p s (MRemoved p0 s0) = false.
+Proof.
+  intro H. simpl. destruct (str_eqb p p0) eqn:E1; [|reflexivity]. destruct (str_eqb s s0) eqn:E2; [|reflexivity].
+  apply str_eqb_spec in E1, E2. subst. contradiction.
+Qed.
+
+(* ---- X handles "publisher removed" ---- *)
+Lemma dir_deliver_removed X Y cxy p0 s0 rest cpx :
+  Dir X Y cxy (MRemoved p0 s0 :: rest) cpx ->
+  NodeOK X (n_name Y) -> can_send X (n_name Y) = true ->
+  Dir (w_lsubs (aremove str_eqb (key3 (n_name Y) p0 s0) (n_lsubs X)) X) Y cxy rest cpx.
+Proof.
+  intros HD HX Hu. pose proof HD as (D1 & D2 & D3 & D5 & D6 & D7 & DI).
+  pose proof (D7 p0 s0 (or_introl eq_refl)) as Hp0.
+  destruct HX as (HTX & HX2 & HX3 & HX4 & HX5).
+  set (X' := w_lsubs (aremove str_eqb (key3 (n_name Y) p0 s0) (n_lsubs X)) X).
+  assert (Hc : forall c, can_send X' c = can_send X c) by reflexivity.
+  unfold Dir. change (n_name X') with (n_name X). repeat rewrite Hc.
+  split; [intro Hd; congruence|]. split; [exact D2|]. split; [exact D3|].
+  split; [intros _ i o Hin; eapply D5; [exact Hu | right; exact Hin]|].
+  split; [exact D6|]. split; [intros p s Hin; eapply D7; right; exact Hin|].
+  intros p s Hp. unfold KeyInv. change (n_name X') with (n_name X). repeat rewrite Hc. intros _.
+  pose proof (DI p s Hp) as K. unfold KeyInv in K. specialize (K Hu).
+  change (Pk X' (n_name Y) p s) with (Pk X (n_name Y) p s). change (n_pid X') with (n_pid X).
+  destruct (Pk X (n_name Y) p s) as [q|] eqn:EP.
+  - destruct K as (id & Hid & Hcase). exists id. split; [exact Hid|].
+    destruct Hcase as [(A1 & A2 & A3)|(B0 & pre & ok & suf & E & F1 & F2 & F3)].
+    + left. split; [exact A1|]. split; [exact A2 | exact A3].
+    + right. split; [exact B0|]. destruct pre as [|m pre']; [simpl in E; discriminate|].
+      simpl in E. inversion E; subst. exists pre', ok, suf. split; [reflexivity|].
+      simpl in F1. auto.
+  - destruct K as [K1 K2]. split; [exact K1|]. intro Hy. specialize (K2 Hy).
+    destruct (pair_dec p s p0 s0) as [E|Hne].
+    + inversion E; subst p s. simpl in K2. rewrite !str_eqb_refl in K2. simpl in K2.
+      assert (HL : Lk X' (n_name Y) p0 s0 = None) by (unfold Lk, X'; simpl; apply slk_aremove_same).
+      rewrite HL. destruct (existsb (is_removed p0 s0) rest); [exact K2|].
+      rewrite K2. split; [discriminate | intro H; exfalso; apply H; reflexivity].
+    + assert (HL : Lk X' (n_name Y) p s = Lk X (n_name Y) p s).
+      { unfold Lk, X'. simpl. apply slk_aremove_other. apply key3_neq; assumption. }
+      rewrite HL. cbn [existsb] in K2. rewrite (is_removed_other p s p0 s0 Hne) in K2. exact K2.
+Qed.
+
+(* ---- Y removes a publisher object ---- *)
+Lemma dir_objremove_Y X Y cxy cyx cpx o :
+  Dir X Y cxy cyx cpx -> nodot o = true -> (forall c, can_send Y c = true -> c = n_name X) ->
+  let r := object_removed (w_objs (sdel str_eqb o (n_objs Y)) Y) o in
+  Dir X (fst r) cxy (cyx ++ msgs_of (snd r)) cpx.
+Proof.
+  intros HD Ho Hpeer r. pose proof HD as (D1 & D2 & D3 & D5 & D6 & D7 & DI).
+  destruct (object_removed_spec Y o) as (S1 & S2 & S3 & S4 & S5 & S6 & S7 & S8 & S9 & S10). fold r in S1, S2, S3, S4, S5, S6, S7, S8, S9, S10.
+  assert (Hc : forall c, can_send (fst r) c = can_send Y c) by (intro c; unfold can_send; rewrite S3; reflexivity).
+  assert (Hnew_rp : forall id m, In m (msgs_of (snd r)) -> is_reply id m = false).
+  { intros id m Hm. destruct (S6 m Hm) as [s' ->]. reflexivity. }
+  unfold Dir. rewrite S4. repeat rewrite Hc.
+  split; [exact D1|].
+  split; [intros Hd p s; destruct (str_eq_dec o p) as [<-|Hne]|].
+  { (* Rk after removal is false for o *) unfold Rk. unfold r, object_removed. simpl.
+    rewrite (alookup_filter_key str_eqb str_eqb_spec (fun k => negb (startswith (o ++ [DOT]) k))).
+    replace (startswith (o ++ [DOT]) (key2 o s)) with true; [reflexivity|].
+    symmetry. unfold key2. replace (o ++ DOT :: s) with ((o ++ [DOT]) ++ s) by (rewrite <- app_assoc; reflexivity). apply startswith_app. }
+  { (* other objects: the filter keeps or drops the entry; membership can only disappear *)
+    specialize (D2 Hd p s). unfold Rk in *. unfold r, object_removed. simpl.
+    rewrite (alookup_filter_key str_eqb str_eqb_spec (fun k => negb (startswith (o ++ [DOT]) k))).
+    destruct (negb (startswith (o ++ [DOT]) (key2 p s))); [exact D2 | reflexivity]. }
+  split; [exact D3|].
+  split; [intros Hu id ok Hin; apply in_app_iff in Hin as [Hin|Hin]; [eapply D5; eauto | destruct (S6 _ Hin) as [s' E]; discriminate]|].
+  split; [exact D6|].
+  split; [intros p s Hin; apply in_app_iff in Hin as [Hin|Hin]; [eapply D7; eauto | destruct (S6 _ Hin) as [s' E]; inversion E; subst; exact Ho]|].
+  intros p s Hp. unfold KeyInv. rewrite S4. repeat rewrite Hc. intro Hu.
+  pose proof (DI p s Hp) as K. unfold KeyInv in K. specialize (K Hu).
+  pose proof (S9 (n_name X) p s Ho Hp) as HR.
+  assert (Hrm_other : o <> p -> forall l, existsb (is_removed p s) (l ++ msgs_of (snd r)) = existsb (is_removed p s) l).
+  { intros Hne l. apply existsb_app_false. intros m Hm. destruct (S6 m Hm) as [s' ->]. simpl.
+    destruct (str_eqb p o) eqn:E; [apply str_eqb_spec in E; congruence | reflexivity]. }
+  assert (Hrm_same : Rk Y (n_name X) p s = true -> can_send Y (n_name X) = true -> o = p ->
+                     forall l, existsb (is_removed p s) (l ++ msgs_of (snd r)) = true).
+  { intros HRt Hy <- l. rewrite existsb_app. apply orb_true_iff. right. apply existsb_exists.
+    exists (MRemoved o s). split; [apply (S10 (n_name X)); assumption | simpl; rewrite !str_eqb_refl; reflexivity]. }
+  assert (Hrp : forall id l, existsb (is_reply id) (l ++ msgs_of (snd r)) = existsb (is_reply id) l)
+    by (intros id l; apply existsb_app_false; intros m Hm; eapply Hnew_rp; eauto).
+  destruct (Pk X (n_name Y) p s) as [q|] eqn:EP.
+  - destruct K as (id & Hid & Hcase). exists id. split; [exact Hid|].
+    destruct Hcase as [(A1 & A2 & A3)|(B0 & pre & ok & suf & E & F1 & F2 & F3)].
+    + left. split; [exact A1|]. split; [rewrite Hrp; exact A2|]. intro Hs. etransitivity; [exact HR|]. rewrite (A3 Hs). destruct (str_eqb o p); reflexivity.
+    + right. split; [exact B0|]. exists pre, ok, (suf ++ msgs_of (snd r)). rewrite E, <- app_assoc. simpl.
+      split; [reflexivity|]. split; [exact F1|]. split; [rewrite Hrp; exact F2|].
+      intro Hy. specialize (F3 Hy). etransitivity; [exact HR|]. destruct (str_eqb o p) eqn:Eo.
+      * apply str_eqb_spec in Eo. destruct (Rk Y (n_name X) p s) eqn:ER.
+        -- rewrite (Hrm_same eq_refl Hy Eo). rewrite andb_false_r. reflexivity.
+        -- symmetry in F3. apply andb_false_iff in F3 as [F3|F3].
+           ++ rewrite F3. reflexivity.
+           ++ apply negb_false_iff in F3. rewrite existsb_app, F3. simpl. rewrite andb_false_r. reflexivity.
+      * rewrite Hrm_other; [exact F3|]. intros ->. rewrite str_eqb_refl in Eo. discriminate.
+  - destruct K as [K1 K2]. split; [exact K1|]. intro Hy. specialize (K2 Hy). rewrite HR.
+    destruct (str_eqb o p) eqn:Eo.
+    + apply str_eqb_spec in Eo. destruct (Rk Y (n_name X) p s) eqn:ER.
+      * rewrite (Hrm_same eq_refl Hy Eo). reflexivity.
+      * destruct (existsb (is_removed p s) cyx) eqn:Ex.
+        -- rewrite existsb_app, Ex. reflexivity.
+        -- destruct (existsb (is_removed p s) (cyx ++ msgs_of (snd r))); [reflexivity|]. exact K2.
+    + rewrite Hrm_other; [exact K2|]. intros ->. rewrite str_eqb_refl in Eo. discriminate.
+Qed.
+
+(* ---- X's API touches the entries of one signal of Y, possibly creating a request ---- *)
+Lemma dir_update_X X X' Y cxy cyx cpx p0 s0 (newreq : option bool) :
+  Dir X Y cxy cyx cpx -> NodeOK X (n_name Y) -> nodot p0 = true ->
+  n_name X' = n_name X -> (forall c, can_send X' c = can_send X c) ->
+  frame_at (key3 (n_name Y) p0 s0) X X' ->
+  let app := match newreq with Some f => [MSubReq (n_next X) p0 s0 f] | None => [] end in
+  let cpapp := match newreq with Some _ => [n_next X] | None => [] end in
+  match newreq with
+  | None => same_pid X X'
+  | Some f => nlk (n_next X) (n_pid X') = Some (key3 (n_name Y) p0 s0) /\
+              (forall id', id' <> n_next X -> nlk id' (n_pid X') = nlk id' (n_pid X))
+  end ->
+  KeyInv X' Y (cxy ++ app) cyx p0 s0 ->
+  (can_send X (n_name Y) = false -> Lk X' (n_name Y) p0 s0 = None /\ newreq = None) ->
+  Dir X' Y (cxy ++ app) cyx (cpx ++ cpapp).
+Proof.
+  intros HD HX Hp0 Hn Hc Hfr app cpapp Hpid Hfocus Hdown.
+  pose proof HD as (D1 & D2 & D3 & D5 & D6 & D7 & DI).
+  pose proof HX as (HTX & HX2 & HX3 & HX4 & HX5). pose proof HTX as (HX0 & (P1 & P2 & P3 & P4) & HPV & _).
+  assert (Hold : forall id key, nlk id (n_pid X) = Some key -> nlk id (n_pid X') = Some key).
+  { intros id key Hid. destruct newreq as [f|].
+    - destruct Hpid as [_ Hpid]. rewrite Hpid; [exact Hid|]. specialize (P4 _ _ Hid). lia.
+    - rewrite Hpid. exact Hid. }
+  assert (Hothers : forall p s, nodot p = true -> (p, s) <> (p0, s0) ->
+            Lk X' (n_name Y) p s = Lk X (n_name Y) p s /\ Pk X' (n_name Y) p s = Pk X (n_name Y) p s).
+  { intros p s Hp Hne. apply Hfr. apply key3_neq; assumption. }
+  unfold Dir. rewrite Hn. repeat rewrite Hc.
+  split; [|split; [exact D2|split; [|split; [|split; [|split; [exact D7|]]]]]].
+  - intro Hd. destruct (D1 Hd) as (A1 & A2 & A3). destruct (Hdown Hd) as [HL ->]. simpl in *.
+    split; [intro id; rewrite Hpid; apply A1|]. split; [|rewrite app_nil_r; exact A3].
+    intros p s. destruct (pair_dec p s p0 s0) as [E|Hne]; [inversion E; subst; exact HL|].
+    (* other keys: by the frame (no nodot needed: compare the keys directly) *)
+    destruct (str_eq_dec (key3 (n_name Y) p s) (key3 (n_name Y) p0 s0)) as [E|Hk].
+    + unfold Lk. rewrite E. exact HL.
+    + unfold Lk. rewrite (proj1 (Hfr _ Hk)). apply A2.
+  - intros id key Hid. apply in_app_iff. destruct newreq as [f|].
+    + destruct Hpid as [Hnew Hsame]. destruct (N.eq_dec id (n_next X)) as [->|Hne]; [right; left; reflexivity|].
+      left. rewrite Hsame in Hid by exact Hne. eapply D3; eauto.
+    + left. rewrite Hpid in Hid. eapply D3; eauto.
+  - intros Hu id ok Hin. destruct (D5 Hu id ok Hin) as [key Hkey]. exists key. apply Hold. exact Hkey.
+  - intros id p s f Hin. apply in_app_iff in Hin as [Hin|Hin]; [eapply D6; eauto|].
+    unfold app in Hin. destruct newreq; simpl in Hin; [|destruct Hin]. destruct Hin as [Hin|[]]. inversion Hin; subst. exact Hp0.
+  - intros p s Hp. destruct (pair_dec p s p0 s0) as [E|Hne]; [inversion E; subst; exact Hfocus|].
+    pose proof (DI p s Hp) as K. unfold KeyInv in *. rewrite Hn. repeat rewrite Hc. intro Hu. specialize (K Hu).
+    destruct (Hothers p s Hp Hne) as [HL HP]. rewrite HL, HP.
+    assert (Hkr : filter (is_kreq p s) (cxy ++ app) = filter (is_kreq p s) cxy).
+    { apply filter_app_nil. intros m Hm. unfold app in Hm. destruct newreq; simpl in Hm; [|destruct Hm].
+      destruct Hm as [<-|[]]. apply is_kreq_other. exact Hne. }
+    rewrite Hkr. destruct (Pk X (n_name Y) p s) as [q|]; [|exact K].
+    destruct K as (id & Hid & Hcase). exists id. split; [apply Hold; exact Hid | exact Hcase].
+Qed.
+
+Lemma replies_fresh X Y cxy cyx cpx :
+  Dir X Y cxy cyx cpx -> NodeOK X (n_name Y) -> can_send X (n_name Y) = true ->
+  existsb (is_reply (n_next X)) cyx = false.
+Proof.
+  intros (_ & _ & _ & D5 & _) (HT & _) Hu. destruct HT as (_ & (_ & _ & _ & P4) & _).
+  destruct (existsb (is_reply (n_next X)) cyx) eqn:E; [|reflexivity]. exfalso.
+  apply existsb_exists in E as [m [Hm Hx]]. destruct m; simpl in Hx; try discriminate. apply N.eqb_eq in Hx. subst.
+  destruct (D5 Hu _ _ Hm) as [k Hk]. specialize (P4 _ _ Hk). lia.
+Qed.
+
+(* no request in flight and nobody subscribed: Y does not list X *)
+Lemma none_case_R X Y cxy cyx cpx p s :
+  Dir X Y cxy cyx cpx -> nodot p = true -> can_send X (n_name Y) = true ->
+  Pk X (n_name Y) p s = None -> Lk X (n_name Y) p s = None -> Rk Y (n_name X) p s = false.
+Proof.
+  intros (_ & D2 & _ & _ & _ & _ & DI) Hp Hu HP HL.
+  destruct (can_send Y (n_name X)) eqn:Hy; [|apply D2; reflexivity].
+  pose proof (DI p s Hp) as K. unfold KeyInv in K. specialize (K Hu). rewrite HP in K. destruct K as [_ K]. specialize (K Hy).
+  destruct (existsb (is_removed p s) cyx); [exact K|].
+  destruct (Rk Y (n_name X) p s); [|reflexivity]. exfalso. rewrite HL in K. apply (proj1 K eq_refl). reflexivity.
+Qed.
+
+Lemma dir_sub_X X Y cxy cyx cpx call p0 s0 rcv :
+  Dir X Y cxy cyx cpx -> NodeOK X (n_name Y) -> names_ok (n_name Y) p0 s0 = true ->
+  let r := sub_remote X call (n_name Y) p0 s0 rcv in
+  Dir (fst r) Y (cxy ++ msgs_of (snd r)) cyx (cpx ++ reqids_of (snd r)).
+Proof.
+  intros HD HX Hok r. pose proof HX as (HTX & HX2 & HX3 & HX4 & HX5).
+  destruct (names_ok_nodot _ _ _ Hok) as (_ & Hp0 & _).
+  pose proof (sub_remote_spec X call (n_name Y) p0 s0 rcv HTX Hok HX4) as Hs. cbv zeta in Hs. fold r in Hs.
+  destruct Hs as (S1 & S2 & S3).
+  assert (Hn : n_name (fst r) = n_name X) by apply S1.
+  assert (Hc : forall c, can_send (fst r) c = can_send X c) by (intro c; apply can_send_same; exact S1).
+  pose proof HD as (D1 & D2 & D3 & D5 & D6 & D7 & DI).
+  pose proof (DI p0 s0 Hp0) as K0. unfold KeyInv in K0.
+  fold (Lk X (n_name Y) p0 s0) in S3. fold (Pk X (n_name Y) p0 s0) in S3.
+  destruct (Lk X (n_name Y) p0 s0) as [l|] eqn:EL.
+  - (* joins the existing subscription *)
+    destruct S3 as (A1 & A2 & A3 & A4 & A5). rewrite A5. simpl.
+    apply (dir_update_X X (fst r) Y cxy cyx cpx p0 s0 None); auto;
+      try (intro Hd; destruct (D1 Hd) as (_ & B2 & _); rewrite B2 in EL; discriminate).
+    unfold KeyInv. rewrite Hn. repeat rewrite Hc. intro Hu. specialize (K0 Hu).
+    unfold Pk, Lk. rewrite A2, A1. rewrite A3 in K0. simpl. rewrite app_nil_r.
+    destruct K0 as [K1 K2]. split; [exact K1|]. intro Hy. specialize (K2 Hy).
+    destruct (existsb (is_removed p0 s0) cyx); [exact K2|]. rewrite (proj2 K2); [|discriminate]. split; [discriminate | reflexivity].
+  - destruct S3 as (A1 & S3). destruct (Pk X (n_name Y) p0 s0) as [q|] eqn:EP.
+    + (* waits on the pending request *)
+      destruct S3 as ((q' & B1 & B2 & B3) & B4 & B5). rewrite B5. simpl.
+      apply (dir_update_X X (fst r) Y cxy cyx cpx p0 s0 None); auto.
+      unfold KeyInv. rewrite Hn. repeat rewrite Hc. intro Hu. specialize (K0 Hu).
+      unfold Pk. rewrite B1. simpl. rewrite app_nil_r. rewrite B2.
+      destruct K0 as (id & Hid & Hcase). exists id. split; [rewrite B4; exact Hid | exact Hcase].
+    + destruct (can_send X (n_name Y)) eqn:Hu.
+      * (* a new subscribe request *)
+        destruct S3 as (B1 & B2 & B3 & B4). rewrite B4. simpl.
+        apply (dir_update_X X (fst r) Y cxy cyx cpx p0 s0 (Some true)); auto; try (intro Hd; congruence).
+        unfold KeyInv. rewrite Hn. repeat rewrite Hc. intros _.
+        unfold Pk. rewrite B1. exists (n_next X). split; [exact B2|]. left.
+        specialize (K0 eq_refl). destruct K0 as [K1 _].
+        rewrite filter_app, K1. simpl. rewrite !str_eqb_refl. simpl. split; [reflexivity|].
+        split; [eapply replies_fresh; eauto|]. intros _. eapply none_case_R; eauto.
+      * destruct S3 as (B1 & B2 & B3). rewrite B3. simpl.
+        apply (dir_update_X X (fst r) Y cxy cyx cpx p0 s0 None); auto.
+        unfold KeyInv. rewrite Hn. repeat rewrite Hc. rewrite Hu. discriminate.
+Qed.
+
+Lemma dir_unsub_X X Y cxy cyx cpx p0 s0 rcv :
+  Dir X Y cxy cyx cpx -> NodeOK X (n_name Y) -> names_ok (n_name Y) p0 s0 = true ->
+  let r := unsub_remote X (n_name Y) p0 s0 rcv in
+  Dir (fst r) Y (cxy ++ msgs_of (snd r)) cyx (cpx ++ reqids_of (snd r)).
+Proof.
+  intros HD HX Hok r. pose proof HX as (HTX & HX2 & HX3 & HX4 & HX5).
+  destruct (names_ok_nodot _ _ _ Hok) as (_ & Hp0 & _).
+  pose proof (unsub_remote_spec X (n_name Y) p0 s0 rcv HTX Hok HX4) as Hs. cbv zeta in Hs. fold r in Hs.
+  destruct Hs as (S1 & S2 & S3).
+  assert (Hn : n_name (fst r) = n_name X) by apply S1.
+  assert (Hc : forall c, can_send (fst r) c = can_send X c) by (intro c; apply can_send_same; exact S1).
+  pose proof HD as (D1 & D2 & D3 & D5 & D6 & D7 & DI).
+  pose proof (DI p0 s0 Hp0) as K0. unfold KeyInv in K0.
+  fold (Lk X (n_name Y) p0 s0) in S3. fold (Pk X (n_name Y) p0 s0) in S3.
+  destruct (Lk X (n_name Y) p0 s0) as [l|] eqn:EL.
+  - destruct S3 as (A0 & S3). destruct (is_nil (sdel N.eqb rcv l)) eqn:En.
+    + destruct S3 as (A1 & S3). destruct (can_send X (n_name Y)) eqn:Hu.
+      * (* the last subscriber left: an unsubscribe request *)
+        destruct S3 as (B1 & B2 & B3 & B4). rewrite B4. simpl.
+        apply (dir_update_X X (fst r) Y cxy cyx cpx p0 s0 (Some false)); auto; try (intro Hd; congruence).
+        unfold KeyInv. rewrite Hn. repeat rewrite Hc. intros _.
+        unfold Pk. rewrite B1. exists (n_next X). split; [exact B2|]. left.
+        specialize (K0 eq_refl). rewrite A0 in K0. destruct K0 as [K1 _].
+        rewrite filter_app, K1. simpl. rewrite !str_eqb_refl. simpl. split; [reflexivity|].
+        split; [eapply replies_fresh; eauto | discriminate].
+      * exfalso. destruct (D1 eq_refl) as (_ & B2 & _). rewrite B2 in EL. discriminate.
+    + destruct S3 as (A1 & A2 & A3 & A4). rewrite A4. simpl.
+      apply (dir_update_X X (fst r) Y cxy cyx cpx p0 s0 None); auto;
+        try (intro Hd; destruct (D1 Hd) as (_ & B2 & _); rewrite B2 in EL; discriminate).
+      unfold KeyInv. rewrite Hn. repeat rewrite Hc. intro Hu. specialize (K0 Hu).
+      unfold Pk, Lk. rewrite A2, A1. rewrite A0 in K0. simpl. rewrite app_nil_r.
+      destruct K0 as [K1 K2]. split; [exact K1|]. intro Hy. specialize (K2 Hy).
+      destruct (existsb (is_removed p0 s0) cyx); [exact K2|]. rewrite (proj2 K2); [|discriminate]. split; [discriminate | reflexivity].
+  - destruct S3 as (A1 & A2 & A3 & A4). rewrite A4. simpl.
+    apply (dir_update_X X (fst r) Y cxy cyx cpx p0 s0 None); auto.
+    unfold KeyInv. rewrite Hn. repeat rewrite Hc. intro Hu. specialize (K0 Hu).
+    unfold Pk, Lk. rewrite A2, A1. simpl. rewrite app_nil_r. fold (Pk X (n_name Y) p0 s0).
+    destruct (Pk X (n_name Y) p0 s0) as [q|]; [|exact K0].
+    destruct K0 as (id & Hid & Hcase). exists id. split; [rewrite A3; exact Hid | exact Hcase].
+Qed.
+
+(* ---- a new connection: everything about the other context had been forgotten at both ends ---- *)
+Lemma dir_connect X Y cxy cyx cpx X' Y' :
+  Dir X Y cxy cyx cpx -> NodeOK X (n_name Y) ->
+  can_send X (n_name Y) = false -> can_send Y (n_name X) = false ->
+  n_name X' = n_name X -> n_name Y' = n_name Y ->
+  n_pid X' = n_pid X -> n_pname X' = n_pname X -> n_lsubs X' = n_lsubs X -> n_rsubs Y' = n_rsubs Y ->
+  Dir X' Y' [] [] cpx.
+Proof.
+  intros (D1 & D2 & D3 & D5 & D6 & D7 & DI) HX Hx Hy Hn1 Hn2 E1 E2 E3 E4.
+  destruct (D1 Hx) as (A1 & A2 & A3). specialize (D2 Hy).
+  assert (HP : forall p s, Pk X' (n_name Y) p s = None).
+  { intros p s. unfold Pk. rewrite E2. apply pname_empty_of_pid; [apply HX | exact A1]. }
+  unfold Dir. rewrite Hn1, Hn2, E1.
+  split; [intros _; split; [exact A1|]; split; [intros p s; unfold Lk; rewrite E3; apply A2 | exact A3]|].
+  split; [intros _ p s; unfold Rk; rewrite E4; apply D2|].
+  split; [intros id key H; rewrite A1 in H; discriminate|].
+  split; [intros _ id ok []|]. split; [intros id p s f []|]. split; [intros p s []|].
+  intros p s Hp. unfold KeyInv. rewrite Hn1, Hn2. intros _. rewrite HP. simpl. split; [reflexivity|].
+  intros _. unfold Rk, Lk. rewrite E4, E3. fold (Rk Y (n_name X) p s). fold (Lk X (n_name Y) p s).
+  rewrite D2, A2. split; [discriminate | intro H; exfalso; apply H; reflexivity].
+Qed.
+
+(* ---- X closes its end ---- *)
+Lemma dir_close_X X X2 Y cxy cyx cpx :
+  n_name X2 = n_name X -> (forall c, can_send X2 c = false) ->
+  (forall id, nlk id (n_pid X2) = None) -> (forall p s, Lk X2 (n_name Y) p s = None) ->
+  Dir X Y cxy cyx cpx -> Dir X2 Y cxy cyx [].
+Proof.
+  intros Hn Hc Hpid HL (D1 & D2 & D3 & D5 & D6 & D7 & DI). unfold Dir. rewrite Hn, Hc.
+  split; [intros _; auto|]. split; [exact D2|]. split; [intros id key H; rewrite Hpid in H; discriminate|].
+  split; [discriminate|]. split; [exact D6|]. split; [exact D7|].
+  intros p s Hp. unfold KeyInv. rewrite Hc. discriminate.
+Qed.
+
+(* ---- Y closes its end ---- *)
+Lemma dir_close_Y X Y Y2 cxy cyx cpx :
+  n_name Y2 = n_name Y -> (forall c, can_send Y2 c = false) -> (forall p s, Rk Y2 (n_name X) p s = false) ->
+  Dir X Y cxy cyx cpx -> Dir X Y2 cxy cyx cpx.
+Proof.
+  intros Hn Hc HR (D1 & D2 & D3 & D5 & D6 & D7 & DI). unfold Dir. rewrite Hn, Hc.
+  split; [exact D1|]. split; [intros _; exact HR|]. split; [exact D3|]. split; [exact D5|]. split; [exact D6|]. split; [exact D7|].
+  intros p s Hp. pose proof (DI p s Hp) as K. unfold KeyInv in *. rewrite Hn, Hc. intro Hu. specialize (K Hu).
+  rewrite HR. destruct (Pk X (n_name Y) p s) as [q|].
+  - destruct K as (id & Hid & [(A1 & A2 & A3)|(B0 & pre & ok & suf & E & F1 & F2 & F3)]); exists id; (split; [exact Hid|]).
+    + left. auto.
+    + right. split; [exact B0|]. exists pre, ok, suf. repeat split; auto. discriminate.
+  - destruct K as [K1 _]. split; [exact K1 | discriminate].
+Qed.
+
+(* ================================================================ API steps of one node *)
+Definition label_ok (i : input) : Prop :=
+  match i with IObjRemove o => nodot o = true | IObjAdd o => nodot o = true | _ => True end.
+
+(* steps that do not touch any table *)
+Definition quiet_input (i : input) : bool :=
+  match i with
+  | ISubEnd _ | IPubBegin _ _ _ | IPubDeliver _ _ | IPubSnapRemote _ | IPubSend _ _ | IObjAdd _ => true
+  | _ => false
+  end.
+
+Lemma quiet_step n i n' os :
+  node_step n i = Some (n', os) -> quiet_input i = true ->
+  tabpart n' = tabpart n /\ n_peers n' = n_peers n /\
+  (forall m, In m (msgs_of os) -> exists p s a j, m = MSignal p s a j) /\ reqids_of os = [].
+Proof.
+  assert (Hnil : forall n0 : node, tabpart n0 = tabpart n0 /\ n_peers n0 = n_peers n0 /\
+            (forall m, In m (msgs_of []) -> exists p s a j, m = MSignal p s a j) /\ reqids_of [] = []).
+  { intro n0. split; [reflexivity|]. split; [reflexivity|]. split; [intros m []|reflexivity]. }
+  assert (Hres : forall r, (forall m, In m (msgs_of [ORes r]) -> exists p s a j, m = MSignal p s a j) /\ reqids_of [ORes r] = []).
+  { intro r. split; [intros m []|reflexivity]. }
+  intros H Hq. destruct i; simpl in Hq; try discriminate; simpl in H.
+  - destruct (alookup N.eqb call (n_done n)); [|discriminate]. inversion H; subst.
+    split; [reflexivity|]. split; [reflexivity|]. apply Hres.
+  - destruct (negb (valid_name p && valid_name s)); inversion H; subst.
+    + split; [reflexivity|]. split; [reflexivity|]. apply Hres.
+    + split; [reflexivity|]. split; [reflexivity|]. split; [intros m []|reflexivity].
+  - destruct (find_job j (n_jobs n)); [|discriminate]. destruct (smem N.eqb r (j_todo j0)); [|discriminate].
+    inversion H; subst. split; [reflexivity|]. split; [reflexivity|]. split; [intros m []|reflexivity].
+  - destruct (find_job j (n_jobs n)); [|discriminate]. destruct (j_todo j0); [|discriminate].
+    destruct (j_rsnap j0); [discriminate|]. inversion H; subst. split; [reflexivity|]. split; [reflexivity|]. split; [intros m []|reflexivity].
+  - destruct (find_job j (n_jobs n)); [|discriminate]. destruct (smem str_eqb x (j_rtodo j0)); [|discriminate].
+    inversion H; subst. split; [reflexivity|]. split; [reflexivity|]. unfold send_to. destruct (can_send n x); simpl.
+    + split; [intros m [<-|[]]; eauto | reflexivity].
+    + split; [intros m []|reflexivity].
+  - inversion H; subst. split; [reflexivity|]. split; [reflexivity|]. split; [intros m []|reflexivity].
+Qed.
+
+Lemma tabpart_facts n n' :
+  tabpart n' = tabpart n ->
+  n_name n' = n_name n /\ n_pid n' = n_pid n /\ n_pname n' = n_pname n /\ n_next n' = n_next n /\
+  n_lsubs n' = n_lsubs n /\ n_rsubs n' = n_rsubs n.
+Proof. unfold tabpart. intro E. inversion E. auto 10. Qed.
+
+Lemma NodeOK_frame n n' o :
+  NodeOK n o -> TInv n' -> n_name n' = n_name n -> n_peers n' = n_peers n ->
+  (forall key q, slk key (n_pname n') = Some q -> pq_ctx q = o) -> NodeOK n' o.
+Proof.
+  intros (H1 & H2 & H3 & H4 & H5) HT Hn Hp H5'. unfold NodeOK. rewrite Hn.
+  split; [exact HT|]. split; [intros c Hc; apply H2; unfold can_send in *; rewrite <- Hp; exact Hc|]. auto.
+Qed.
+
+(* local subscribe / unsubscribe, or a usage error: only the entry of an own signal changes *)
+Lemma local_sub_step n i n' os :
+  node_step n i = Some (n', os) ->
+  (exists call c p s r, i = ISub call c p s r /\ (names_ok (resolve_ctx n c) p s = false \/ resolve_ctx n c = n_name n)) \/
+  (exists c p s r, i = IUnsub c p s r /\ (names_ok (resolve_ctx n c) p s = false \/ resolve_ctx n c = n_name n)) ->
+  n_pname n' = n_pname n /\ n_pid n' = n_pid n /\ n_rsubs n' = n_rsubs n /\ n_peers n' = n_peers n /\
+  n_name n' = n_name n /\ msgs_of os = [] /\ reqids_of os = [] /\
+  (forall c p s, nodot (n_name n) = true -> nodot c = true -> c <> n_name n -> Lk n' c p s = Lk n c p s).
+Proof.
+  intros H [(call & c & p & s & r & -> & Hc)|(c & p & s & r & -> & Hc)]; simpl in H.
+  - destruct (names_ok (resolve_ctx n c) p s) eqn:Eok; simpl in H.
+    2: { inversion H; subst. simpl. repeat split; auto. }
+    destruct Hc as [Hc|Hc]; [discriminate|]. rewrite Hc, str_eqb_refl in H. inversion H as [[E1 E2]].
+    unfold sub_local in E1. destruct (smem str_eqb p (n_objs n)); inversion E1; subst; simpl.
+    2: { repeat split; auto. }
+    unfold add_local. destruct (alookup str_eqb (key3 (n_name n) p s) (n_lsubs n)); simpl; repeat split; auto;
+      intros c0 p0 s0 Hm Hc0 Hne; unfold Lk; simpl; apply slk_aset_other; intro E; unfold key3 in E;
+      apply split_first_dot in E as [E _]; try assumption; congruence.
+  - destruct (names_ok (resolve_ctx n c) p s) eqn:Eok; simpl in H.
+    2: { inversion H; subst. simpl. repeat split; auto. }
+    destruct Hc as [Hc|Hc]; [discriminate|]. rewrite Hc, str_eqb_refl in H. inversion H as [[E1 E2]]. subst os.
+    assert (Hpv : nodot p = true).
+    { unfold names_ok in Eok. apply andb_true_iff in Eok as [Eok _]. apply andb_true_iff in Eok as [_ Eok]. apply valid_nodot. exact Eok. }
+    unfold remove_local. destruct (alookup str_eqb (key3 (n_name n) p s) (n_lsubs n)); simpl.
+    + destruct (is_nil (sdel N.eqb r l)); simpl; repeat split; auto;
+        intros c0 p0 s0 Hm Hc0 Hne; unfold Lk; simpl; [apply slk_aremove_other | apply slk_aset_other];
+        intro E; unfold key3 in E; apply split_first_dot in E as [E _]; try assumption; congruence.
+    + repeat split; auto.
+Qed.
+
+Lemma dir_frame_X' X X' Y cxy cyx cpx app :
+  Dir X Y cxy cyx cpx ->
+  n_name X' = n_name X -> (forall c, can_send X' c = can_send X c) -> same_pid X X' ->
+  (forall p s, Lk X' (n_name Y) p s = Lk X (n_name Y) p s /\ Pk X' (n_name Y) p s = Pk X (n_name Y) p s) ->
+  (forall m, In m app -> is_req m = false) ->
+  Dir X' Y (cxy ++ app) cyx (cpx ++ []).
+Proof. intros. rewrite (app_nil_r cpx). apply (dir_frame_X X); assumption. Qed.
+
+Lemma key3_ctx_neq c c' p s p' s' : nodot c = true -> nodot c' = true -> c <> c' -> key3 c p s <> key3 c' p' s'.
+Proof. intros Hc Hc' Hne E. unfold key3 in E. apply split_first_dot in E as [E _]; auto. Qed.
+
+Lemma app_nil_both {A} (l : list A) : l = l ++ [].
+Proof. symmetry. apply app_nil_r. Qed.
+
+(* a remote subscribe / unsubscribe naming a third context: nothing can be sent, nothing stays *)
+Lemma third_ctx_step X Y c p0 s0 (res : node * list out) :
+  NodeOK X (n_name Y) -> names_ok c p0 s0 = true -> c <> n_name X -> c <> n_name Y ->
+  same_side X (fst res) -> frame_at (key3 c p0 s0) X (fst res) ->
+  same_pid X (fst res) -> msgs_of (snd res) = [] -> reqids_of (snd res) = [] ->
+  (forall q', slk (key3 c p0 s0) (n_pname (fst res)) = Some q' -> pq_ctx q' = n_name Y) ->
+  TInv (fst res) ->
+  forall cxy cyx cpx, Dir X Y cxy cyx cpx ->
+  NodeOK (fst res) (n_name Y) /\ Dir (fst res) Y (cxy ++ msgs_of (snd res)) cyx (cpx ++ reqids_of (snd res)).
+Proof.
+  intros HX Hok Hc1 Hc2 S1 S2 Hpid Hm Hr Hq HT cxy cyx cpx HD.
+  pose proof HX as (HTX & HX2 & HX3 & HX4 & HX5). destruct (names_ok_nodot _ _ _ Hok) as (Hcd & _ & _).
+  assert (Hframe : forall p s, key3 (n_name Y) p s <> key3 c p0 s0) by (intros p s; apply key3_ctx_neq; auto).
+  split.
+  - apply (NodeOK_frame X); auto; try apply S1.
+    intros key q Hk. destruct (str_eq_dec key (key3 c p0 s0)) as [->|Hne]; [apply Hq; exact Hk|].
+    rewrite (proj2 (S2 key Hne)) in Hk. eapply HX5; eauto.
+  - rewrite Hm, Hr. apply (dir_frame_X' X); auto; try apply S1.
+    + intro c0. apply can_send_same. exact S1.
+    + intros p s. unfold Lk, Pk. destruct (S2 _ (Hframe p s)) as [A B]. rewrite A, B. auto.
+    + intros m [].
+Qed.
+
+Lemma api_X X Y cxy cyx cpx i X' os :
+  Dir X Y cxy cyx cpx -> NodeOK X (n_name Y) -> label_ok i -> api_input i = true ->
+  node_step X i = Some (X', os) ->
+  NodeOK X' (n_name Y) /\ n_name X' = n_name X /\ n_peers X' = n_peers X /\
+  Dir X' Y (cxy ++ msgs_of os) cyx (cpx ++ reqids_of os).
+Proof.
+  intros HD HX Hl Hapi H. pose proof HX as (HTX & HX2 & HX3 & HX4 & HX5). pose proof HTX as (HX0 & _).
+  pose proof (step_TInv _ _ _ _ H HTX) as HT'.
+  destruct (quiet_input i) eqn:Hq.
+  { destruct (quiet_step _ _ _ _ H Hq) as (E & Ep & Hm & Hr). destruct (tabpart_facts _ _ E) as (E1 & E2 & E3 & E4 & E5 & E6).
+    split; [apply (NodeOK_frame X); auto; rewrite E3; exact HX5|]. split; [exact E1|]. split; [exact Ep|].
+    rewrite Hr. apply (dir_frame_X' X); auto.
+    - intro c. unfold can_send. rewrite Ep. reflexivity.
+    - intro id. rewrite E2. reflexivity.
+    - intros p s. unfold Lk, Pk. rewrite E5, E3. auto.
+    - intros m Hin. destruct (Hm m Hin) as (p & s & a & j & ->). reflexivity. }
+  destruct i; simpl in Hq, Hapi; try discriminate.
+  - (* ISub *)
+    destruct (names_ok (resolve_ctx X c) p s) eqn:Eok.
+    2: { destruct (local_sub_step _ _ _ _ H) as (E1 & E2 & E3 & E4 & E5 & E6 & E7 & E8); [left; eauto 10|].
+         split; [apply (NodeOK_frame X); auto; rewrite E1; exact HX5|]. split; [exact E5|]. split; [exact E4|].
+         rewrite E6, E7. apply (dir_frame_X' X); auto.
+         - intro c0. unfold can_send. rewrite E4. reflexivity.
+         - intro id. rewrite E2. reflexivity.
+         - intros p0 s0. unfold Pk. rewrite E1. split; [apply E8; auto | reflexivity].
+         - intros m []. }
+    destruct (str_eq_dec (resolve_ctx X c) (n_name X)) as [Eself|Nself].
+    { destruct (local_sub_step _ _ _ _ H) as (E1 & E2 & E3 & E4 & E5 & E6 & E7 & E8); [left; eauto 10|].
+      split; [apply (NodeOK_frame X); auto; rewrite E1; exact HX5|]. split; [exact E5|]. split; [exact E4|].
+      rewrite E6, E7. apply (dir_frame_X' X); auto.
+      - intro c0. unfold can_send. rewrite E4. reflexivity.
+      - intro id. rewrite E2. reflexivity.
+      - intros p0 s0. unfold Pk. rewrite E1. split; [apply E8; auto | reflexivity].
+      - intros m []. }
+    simpl in H. rewrite Eok in H. simpl in H. rewrite (str_eqb_neq _ _ Nself) in H.
+    assert (E : (X', os) = sub_remote X call (resolve_ctx X c) p s r) by (inversion H; reflexivity).
+    pose proof (sub_remote_spec X call (resolve_ctx X c) p s r HTX Eok Nself) as Hs. cbv zeta in Hs.
+    destruct (str_eq_dec (resolve_ctx X c) (n_name Y)) as [Ey|Ny].
+    + rewrite Ey in *. pose proof (dir_sub_X X Y cxy cyx cpx call p s r HD HX Eok) as Hd. cbv zeta in Hd.
+      rewrite <- E in Hd, Hs. simpl in Hd, Hs. destruct Hs as (S1 & S2 & S3).
+      split; [|split; [apply S1 | split; [apply S1 | exact Hd]]].
+      apply (NodeOK_frame X); auto; try apply S1.
+      intros key q Hk. destruct (str_eq_dec key (key3 (n_name Y) p s)) as [->|Hne].
+      * destruct (slk (key3 (n_name Y) p s) (n_lsubs X)).
+        -- destruct S3 as (_ & A2 & _). rewrite A2 in Hk. discriminate.
+        -- destruct S3 as (_ & S3). destruct (slk (key3 (n_name Y) p s) (n_pname X)) as [q0|] eqn:Eq0.
+           ++ destruct S3 as ((q' & B1 & B2 & B3) & _). rewrite B1 in Hk. inversion Hk; subst. rewrite B3. eapply HX5; eauto.
+           ++ destruct (can_send X (n_name Y)); [destruct S3 as (B1 & _) | destruct S3 as (B1 & _)]; rewrite B1 in Hk; inversion Hk; reflexivity.
+      * rewrite (proj2 (S2 key Hne)) in Hk. eapply HX5; eauto.
+    + rewrite <- E in Hs. simpl in Hs. destruct Hs as (S1 & S2 & S3).
+      assert (Hcs : can_send X (resolve_ctx X c) = false).
+      { destruct (can_send X (resolve_ctx X c)) eqn:Ec; [|reflexivity]. exfalso. apply Ny. apply HX2. exact Ec. }
+      rewrite Hcs in S3.
+      assert (Hfacts : same_pid X X' /\ msgs_of os = [] /\ reqids_of os = [] /\
+                       (forall q', slk (key3 (resolve_ctx X c) p s) (n_pname X') = Some q' -> pq_ctx q' = n_name Y)).
+      { destruct (slk (key3 (resolve_ctx X c) p s) (n_lsubs X)).
+        - destruct S3 as (_ & A2 & _ & A4 & A5). rewrite A5. split; [exact A4|]. split; [reflexivity|]. split; [reflexivity|].
+          intros q' Hq'. rewrite A2 in Hq'. discriminate.
+        - destruct S3 as (_ & S3). destruct (slk (key3 (resolve_ctx X c) p s) (n_pname X)) as [q0|] eqn:Eq0.
+          + destruct S3 as ((q' & B1 & B2 & B3) & B4 & B5). rewrite B5. split; [exact B4|]. split; [reflexivity|]. split; [reflexivity|].
+            intros q'' Hq''. rewrite B1 in Hq''. inversion Hq''; subst. rewrite B3. eapply HX5; eauto.
+          + destruct S3 as (B1 & B2 & B3). rewrite B3. split; [exact B2|]. split; [reflexivity|]. split; [reflexivity|].
+            intros q' Hq'. rewrite B1 in Hq'. discriminate. }
+      destruct Hfacts as (F1 & F2 & F3 & F4).
+      destruct (third_ctx_step X Y (resolve_ctx X c) p s (X', os) HX Eok Nself Ny S1 S2 F1 F2 F3 F4 HT' cxy cyx cpx HD) as [G1 G2].
+      split; [exact G1|]. split; [apply S1|]. split; [apply S1 | exact G2].
+  - (* IUnsub *)
+    destruct (names_ok (resolve_ctx X c) p s) eqn:Eok.
+    2: { destruct (local_sub_step _ _ _ _ H) as (E1 & E2 & E3 & E4 & E5 & E6 & E7 & E8); [right; eauto 10|].
+         split; [apply (NodeOK_frame X); auto; rewrite E1; exact HX5|]. split; [exact E5|]. split; [exact E4|].
+         rewrite E6, E7. apply (dir_frame_X' X); auto.
+         - intro c0. unfold can_send. rewrite E4. reflexivity.
+         - intro id. rewrite E2. reflexivity.
+         - intros p0 s0. unfold Pk. rewrite E1. split; [apply E8; auto | reflexivity].
+         - intros m []. }
+    destruct (str_eq_dec (resolve_ctx X c) (n_name X)) as [Eself|Nself].
+    { destruct (local_sub_step _ _ _ _ H) as (E1 & E2 & E3 & E4 & E5 & E6 & E7 & E8); [right; eauto 10|].
+      split; [apply (NodeOK_frame X); auto; rewrite E1; exact HX5|]. split; [exact E5|]. split; [exact E4|].
+      rewrite E6, E7. apply (dir_frame_X' X); auto.
+      - intro c0. unfold can_send. rewrite E4. reflexivity.
+      - intro id. rewrite E2. reflexivity.
+      - intros p0 s0. unfold Pk. rewrite E1. split; [apply E8; auto | reflexivity].
+      - intros m []. }
+    simpl in H. rewrite Eok in H. simpl in H. rewrite (str_eqb_neq _ _ Nself) in H.
+    assert (E : (X', os) = unsub_remote X (resolve_ctx X c) p s r) by (inversion H; reflexivity).
+    pose proof (unsub_remote_spec X (resolve_ctx X c) p s r HTX Eok Nself) as Hs. cbv zeta in Hs.
+    destruct (str_eq_dec (resolve_ctx X c) (n_name Y)) as [Ey|Ny].
+    + rewrite Ey in *. pose proof (dir_unsub_X X Y cxy cyx cpx p s r HD HX Eok) as Hd. cbv zeta in Hd.
+      rewrite <- E in Hd, Hs. simpl in Hd, Hs. destruct Hs as (S1 & S2 & S3).
+      split; [|split; [apply S1 | split; [apply S1 | exact Hd]]].
+      apply (NodeOK_frame X); auto; try apply S1.
+      intros key q Hk. destruct (str_eq_dec key (key3 (n_name Y) p s)) as [->|Hne].
+      * destruct (slk (key3 (n_name Y) p s) (n_lsubs X)) as [l|].
+        -- destruct S3 as (A0 & S3). destruct (is_nil (sdel N.eqb r l)).
+           ++ destruct S3 as (_ & S3). destruct (can_send X (n_name Y)); [destruct S3 as (B1 & _) | destruct S3 as (B1 & _)];
+                rewrite B1 in Hk; inversion Hk; reflexivity.
+           ++ destruct S3 as (_ & A2 & _). rewrite A2 in Hk. discriminate.
+        -- destruct S3 as (_ & A2 & _). rewrite A2 in Hk. eapply HX5; eauto.
+      * rewrite (proj2 (S2 key Hne)) in Hk. eapply HX5; eauto.
+    + rewrite <- E in Hs. simpl in Hs. destruct Hs as (S1 & S2 & S3).
+      assert (Hcs : can_send X (resolve_ctx X c) = false).
+      { destruct (can_send X (resolve_ctx X c)) eqn:Ec; [|reflexivity]. exfalso. apply Ny. apply HX2. exact Ec. }
+      rewrite Hcs in S3.
+      assert (Hfacts : same_pid X X' /\ msgs_of os = [] /\ reqids_of os = [] /\
+                       (forall q', slk (key3 (resolve_ctx X c) p s) (n_pname X') = Some q' -> pq_ctx q' = n_name Y)).
+      { destruct (slk (key3 (resolve_ctx X c) p s) (n_lsubs X)) as [l|].
+        - destruct S3 as (A0 & S3). destruct (is_nil (sdel N.eqb r l)).
+          + destruct S3 as (_ & B1 & B2 & B3). rewrite B3. split; [exact B2|]. split; [reflexivity|]. split; [reflexivity|].
+            intros q' Hq'. rewrite B1 in Hq'. discriminate.
+          + destruct S3 as (_ & A2 & A3 & A4). rewrite A4. split; [exact A3|]. split; [reflexivity|]. split; [reflexivity|].
+            intros q' Hq'. rewrite A2 in Hq'. discriminate.
+        - destruct S3 as (_ & A2 & A3 & A4). rewrite A4. split; [exact A3|]. split; [reflexivity|]. split; [reflexivity|].
+          intros q' Hq'. rewrite A2 in Hq'. eapply HX5; eauto. }
+      destruct Hfacts as (F1 & F2 & F3 & F4).
+      destruct (third_ctx_step X Y (resolve_ctx X c) p s (X', os) HX Eok Nself Ny S1 S2 F1 F2 F3 F4 HT' cxy cyx cpx HD) as [G1 G2].
+      split; [exact G1|]. split; [apply S1|]. split; [apply S1 | exact G2].
+  - (* IObjRemove *)
+    simpl in H. assert (E : (X', os) = object_removed (w_objs (sdel str_eqb o (n_objs X)) X) o) by (inversion H; reflexivity).
+    destruct (object_removed_spec X o) as (S1 & S2 & S3 & S4 & S5 & S6 & S7 & S8 & S9 & S10).
+    rewrite <- E in *. simpl in *.
+    split; [apply (NodeOK_frame X); auto; rewrite S1; exact HX5|]. split; [exact S4|]. split; [exact S3|].
+    rewrite S7. apply (dir_frame_X' X); auto.
+    + intro c. unfold can_send. rewrite S3. reflexivity.
+    + intro id. rewrite S2. reflexivity.
+    + intros p s. unfold Pk. rewrite S1. split; [apply S8; auto | reflexivity].
+    + intros m Hin. destruct (S6 m Hin) as [s' ->]. reflexivity.
+Qed.
+
+Lemma send_req_msgs n id q : forall m, In m (msgs_of (snd (send_req n id q))) -> is_req m = true.
+Proof.
+  unfold send_req. destruct (can_send n (pq_ctx q)); simpl.
+  - intros m [<-|[]]. reflexivity.
+  - destruct (complete n id false) as [n1 [[id2 q2]|]]; simpl; intros m [].
+Qed.
+
+Lemma sub_remote_msgs n call c p s r : forall m, In m (msgs_of (snd (sub_remote n call c p s r))) -> is_req m = true.
+Proof.
+  unfold sub_remote. destruct (alookup str_eqb (key3 c p s) (n_lsubs n)) as [[|x l]|]; try (simpl; intros m []; fail);
+  (destruct (alookup str_eqb (key3 c p s) (n_pname n)); [simpl; intros m []|]);
+  unfold new_request; cbv beta iota zeta;
+  match goal with |- context [send_req ?a ?b ?c0] => pose proof (send_req_msgs a b c0) as Hs; destruct (send_req a b c0) end;
+  simpl in *; intros m Hm; rewrite msgs_of_app in Hm; (apply in_app_iff in Hm as [Hm|Hm]; [apply Hs; exact Hm | destruct Hm]).
+Qed.
+
+Lemma unsub_remote_msgs n c p s r : forall m, In m (msgs_of (snd (unsub_remote n c p s r))) -> is_req m = true.
+Proof.
+  unfold unsub_remote. destruct (remove_local n (key3 c p s) r) as [n1 last].
+  destruct last; [|simpl; intros m []].
+  destruct (alookup str_eqb (key3 c p s) (n_pname n1)); [simpl; intros m []|].
+  unfold new_request. cbv beta iota zeta.
+  match goal with |- context [send_req ?a ?b ?c0] => pose proof (send_req_msgs a b c0) as Hs; destruct (send_req a b c0) end.
+  simpl in *. intros m Hm. rewrite msgs_of_app in Hm. apply in_app_iff in Hm as [Hm|Hm]; [apply Hs; exact Hm | destruct Hm].
+Qed.
+
+Lemma api_Y X Y cxy cyx cpx i Y' os :
+  Dir X Y cxy cyx cpx -> NodeOK Y (n_name X) -> label_ok i -> api_input i = true ->
+  node_step Y i = Some (Y', os) ->
+  Dir X Y' cxy (cyx ++ msgs_of os) cpx.
+Proof.
+  intros HD HY Hl Hapi H. pose proof HY as (HTY & HY2 & HY3 & HY4 & HY5).
+  assert (Hgen : n_rsubs Y' = n_rsubs Y -> n_peers Y' = n_peers Y -> n_name Y' = n_name Y ->
+                 (forall m, In m (msgs_of os) -> is_anyreply m = false /\ is_anyremoved m = false) ->
+                 Dir X Y' cxy (cyx ++ msgs_of os) cpx).
+  { intros E1 E2 E3 Hm. apply (dir_frame_Y X Y); auto.
+    - intro c. unfold can_send. rewrite E2. reflexivity.
+    - intros p s. unfold Rk. rewrite E1. reflexivity. }
+  destruct (quiet_input i) eqn:Hq.
+  { destruct (quiet_step _ _ _ _ H Hq) as (E & Ep & Hm & Hr). destruct (tabpart_facts _ _ E) as (E1 & E2 & E3 & E4 & E5 & E6).
+    apply Hgen; auto. intros m Hin. destruct (Hm m Hin) as (p & s & a & j & ->). auto. }
+  assert (Hreq : (forall m, In m (msgs_of os) -> is_req m = true) ->
+                 forall m, In m (msgs_of os) -> is_anyreply m = false /\ is_anyremoved m = false).
+  { intros Hr m Hin. specialize (Hr m Hin). destruct m; try discriminate. auto. }
+  destruct i; simpl in Hq, Hapi; try discriminate.
+  - destruct (names_ok (resolve_ctx Y c) p s) eqn:Eok.
+    2: { destruct (local_sub_step _ _ _ _ H) as (E1 & E2 & E3 & E4 & E5 & E6 & E7 & E8); [left; eauto 10|].
+         apply Hgen; auto. rewrite E6. intros m []. }
+    destruct (str_eq_dec (resolve_ctx Y c) (n_name Y)) as [Eself|Nself].
+    { destruct (local_sub_step _ _ _ _ H) as (E1 & E2 & E3 & E4 & E5 & E6 & E7 & E8); [left; eauto 10|].
+      apply Hgen; auto. rewrite E6. intros m []. }
+    simpl in H. rewrite Eok in H. simpl in H. rewrite (str_eqb_neq _ _ Nself) in H.
+    assert (E : (Y', os) = sub_remote Y call (resolve_ctx Y c) p s r) by (inversion H; reflexivity).
+    pose proof (sub_remote_spec Y call (resolve_ctx Y c) p s r HTY Eok Nself) as Hs. cbv zeta in Hs.
+    pose proof (sub_remote_msgs Y call (resolve_ctx Y c) p s r) as Hm.
+    rewrite <- E in Hs, Hm. simpl in Hs, Hm. destruct Hs as (S1 & _).
+    apply Hgen; try apply S1. apply Hreq. exact Hm.
+  - destruct (names_ok (resolve_ctx Y c) p s) eqn:Eok.
+    2: { destruct (local_sub_step _ _ _ _ H) as (E1 & E2 & E3 & E4 & E5 & E6 & E7 & E8); [right; eauto 10|].
+         apply Hgen; auto. rewrite E6. intros m []. }
+    destruct (str_eq_dec (resolve_ctx Y c) (n_name Y)) as [Eself|Nself].
+    { destruct (local_sub_step _ _ _ _ H) as (E1 & E2 & E3 & E4 & E5 & E6 & E7 & E8); [right; eauto 10|].
+      apply Hgen; auto. rewrite E6. intros m []. }
+    simpl in H. rewrite Eok in H. simpl in H. rewrite (str_eqb_neq _ _ Nself) in H.
+    assert (E : (Y', os) = unsub_remote Y (resolve_ctx Y c) p s r) by (inversion H; reflexivity).
+    pose proof (unsub_remote_spec Y (resolve_ctx Y c) p s r HTY Eok Nself) as Hs. cbv zeta in Hs.
+    pose proof (unsub_remote_msgs Y (resolve_ctx Y c) p s r) as Hm.
+    rewrite <- E in Hs, Hm. simpl in Hs, Hm. destruct Hs as (S1 & _).
+    apply Hgen; try apply S1. apply Hreq. exact Hm.
+  - simpl in H. assert (E : (Y', os) = object_removed (w_objs (sdel str_eqb o (n_objs Y)) Y) o) by (inversion H; reflexivity).
+    pose proof (dir_objremove_Y X Y cxy cyx cpx o HD Hl HY2) as Hd. cbv zeta in Hd. rewrite <- E in Hd. exact Hd.
+Qed.
+
+(* ================================================================ the two-context system *)
+Definition SInv2 (s : sys2) : Prop :=
+  forall sd, NodeOK (nd s sd) (n_name (nd s (negb sd))) /\
+             Dir (nd s sd) (nd s (negb sd)) (ch s sd) (ch s (negb sd)) (cp s sd).
+
+Lemma route2_spec sd os : forall s,
+  nd (route2 sd os s) true = nd s true /\ nd (route2 sd os s) false = nd s false /\
+  ch (route2 sd os s) sd = ch s sd ++ msgs_of os /\ ch (route2 sd os s) (negb sd) = ch s (negb sd) /\
+  cp (route2 sd os s) sd = cp s sd ++ reqids_of os /\ cp (route2 sd os s) (negb sd) = cp s (negb sd).
+Proof.
+  induction os as [|o os IH]; intro s.
+  - simpl. rewrite !app_nil_r. auto 10.
+  - destruct o as [y m|r].
+    2: { change (route2 sd (ORes r :: os) s) with (route2 sd os s).
+         change (msgs_of (ORes r :: os)) with (msgs_of os). change (reqids_of (ORes r :: os)) with (reqids_of os). apply IH. }
+    pose (s0 := w_ch sd (ch s sd ++ [m]) s).
+    pose (s1 := match req_id_of m with Some id => w_cp sd (cp s0 sd ++ [id]) s0 | None => s0 end).
+    change (route2 sd (OSend y m :: os) s) with (route2 sd os s1).
+    destruct (IH s1) as (A1 & A2 & A3 & A4 & A5 & A6).
+    assert (B : nd s1 true = nd s true /\ nd s1 false = nd s false /\ ch s1 sd = ch s sd ++ [m] /\
+                ch s1 (negb sd) = ch s (negb sd) /\
+                cp s1 sd = cp s sd ++ (match req_id_of m with Some id => [id] | None => [] end) /\
+                cp s1 (negb sd) = cp s (negb sd)).
+    { unfold s1, s0. destruct (req_id_of m); destruct sd; simpl; rewrite ?app_nil_r; auto 10. }
+    destruct B as (B1 & B2 & B3 & B4 & B5 & B6).
+    rewrite A1, A2, A3, A4, A5, A6, B1, B2, B3, B4, B5, B6.
+    change (msgs_of (OSend y m :: os)) with (m :: msgs_of os).
+    change (reqids_of (OSend y m :: os)) with ((match req_id_of m with Some id => [id] | None => [] end) ++ reqids_of os).
+    rewrite <- !app_assoc. simpl. auto 10.
+Qed.
+
+Lemma nd_route2 sd os s x : nd (route2 sd os s) x = nd s x.
+Proof. destruct (route2_spec sd os s) as (A1 & A2 & _). destruct x; assumption. Qed.
+
+Definition label2_ok (l : label2) : Prop := match l with L2Node _ i => label_ok i | _ => True end.
+
+Lemma negb_negb sd : negb (negb sd) = sd.
+Proof. destruct sd; reflexivity. Qed.
+
+Lemma SInv2_names s : SInv2 s -> n_name (sA s) <> n_name (sB s).
+Proof. intro H. destruct (H true) as [(_ & _ & _ & Hne & _) _]. simpl in Hne. congruence. Qed.
+
+(* --- API step --- *)
+Lemma step2_node s sd i n' os :
+  SInv2 s -> label_ok i -> api_input i = true -> node_step (nd s sd) i = Some (n', os) ->
+  SInv2 (route2 sd os (w_nd sd n' s)).
+Proof.
+  intros HS Hl Hapi H. destruct (HS sd) as [HX HD]. destruct (HS (negb sd)) as [HY HD'].
+  rewrite negb_negb in HY, HD'.
+  destruct (api_X _ _ _ _ _ _ _ _ HD HX Hl Hapi H) as (G1 & G2 & G3 & G4).
+  pose proof (api_Y _ _ _ _ _ _ _ _ HD' HX Hl Hapi H) as G5.
+  destruct (route2_spec sd os (w_nd sd n' s)) as (A1 & A2 & A3 & A4 & A5 & A6).
+  intro d. destruct (Bool.bool_dec d sd) as [->|Hne].
+  - assert (E1 : nd (route2 sd os (w_nd sd n' s)) sd = n') by (rewrite nd_route2; destruct sd; reflexivity).
+    assert (E2 : nd (route2 sd os (w_nd sd n' s)) (negb sd) = nd s (negb sd)) by (rewrite nd_route2; destruct sd; reflexivity).
+    rewrite E1, E2, A3, A4, A5.
+    replace (ch (w_nd sd n' s) sd) with (ch s sd) by (destruct sd; reflexivity).
+    replace (ch (w_nd sd n' s) (negb sd)) with (ch s (negb sd)) by (destruct sd; reflexivity).
+    replace (cp (w_nd sd n' s) sd) with (cp s sd) by (destruct sd; reflexivity).
+    split; assumption.
+  - assert (d = negb sd) by (destruct d, sd; try reflexivity; contradiction). subst d. rewrite negb_negb.
+    assert (E1 : nd (route2 sd os (w_nd sd n' s)) sd = n') by (rewrite nd_route2; destruct sd; reflexivity).
+    assert (E2 : nd (route2 sd os (w_nd sd n' s)) (negb sd) = nd s (negb sd)) by (rewrite nd_route2; destruct sd; reflexivity).
+    rewrite E1, E2, A3, A4, A6.
+    replace (ch (w_nd sd n' s) sd) with (ch s sd) by (destruct sd; reflexivity).
+    replace (ch (w_nd sd n' s) (negb sd)) with (ch s (negb sd)) by (destruct sd; reflexivity).
+    replace (cp (w_nd sd n' s) (negb sd)) with (cp s (negb sd)) by (destruct sd; reflexivity).
+    rewrite G2. split; assumption.
+Qed.
+
+(* --- delivery --- *)
+Lemma handle_reply_msgs n id ok : forall m, In m (msgs_of (snd (handle_reply n id ok))) -> is_req m = true.
+Proof.
+  unfold handle_reply. destruct (complete n id ok) as [n1 [[id2 q2]|]]; simpl; [apply send_req_msgs | intros m []].
+Qed.
+
+Lemma handle_reply_node n o id ok :
+  NodeOK n o ->
+  let r := handle_reply n id ok in
+  NodeOK (fst r) o /\ same_side n (fst r).
+Proof.
+  intros HN r. pose proof HN as (HT & H2 & H3 & H4 & H5).
+  pose proof (handle_reply_TInv n id ok HT) as HT'. fold r in HT'.
+  destruct (nlk id (n_pid n)) as [key|] eqn:Eid.
+  2: { unfold r. rewrite handle_reply_unknown by exact Eid. simpl. split; [exact HN | unfold same_side; auto]. }
+  destruct HT as (H0 & (P1 & P2 & P3 & P4) & HPV & HR).
+  destruct (P1 _ _ Eid) as [q Eq].
+  pose proof (handle_reply_spec n id ok key q (proj1 HN) Eid Eq) as Hs. cbv zeta in Hs. fold r in Hs.
+  destruct Hs as (S1 & S2 & S3 & S4). split; [|exact S1].
+  apply (NodeOK_frame n); auto; try apply S1.
+  intros k q' Hk. destruct (str_eq_dec k key) as [->|Hne].
+  - destruct (pq_sub q).
+    + destruct S4 as (_ & A & _). rewrite A in Hk. discriminate.
+    + destruct (is_nil (pq_recv q)).
+      * destruct S4 as (_ & A & _). rewrite A in Hk. discriminate.
+      * destruct (can_send n (pq_ctx q)).
+        -- cbv zeta in S4. destruct S4 as (_ & A & _). rewrite A in Hk. inversion Hk; subst. simpl. eapply H5; eauto.
+        -- destruct S4 as (_ & A & _). rewrite A in Hk. discriminate.
+  - rewrite (proj2 (S2 k Hne)) in Hk. eapply H5; eauto.
+Qed.
+
+Lemma step2_deliver s sd m rest n' os :
+  SInv2 s -> ch s sd = m :: rest -> up s (negb sd) = true ->
+  node_step (nd s (negb sd)) (IRecv (n_name (nd s sd)) m) = Some (n', os) ->
+  let rc := negb sd in
+  let s1 := w_ch sd rest s in
+  let s2 := match reply_id_of m with Some id => w_cp rc (sdel N.eqb id (cp s1 rc)) s1 | None => s1 end in
+  SInv2 (route2 (negb sd) os (w_nd (negb sd) n' s2)).
+Proof.
+  intros HS Hch Hup H rc s1 s2. subst rc.
+  destruct (HS sd) as [HA HDa]. destruct (HS (negb sd)) as [HB HDb]. rewrite negb_negb in HB, HDb.
+  rewrite Hch in HDa, HDb. unfold up in Hup. rewrite negb_negb in Hup.
+  set (A := nd s sd) in *. set (B := nd s (negb sd)) in *.
+  (* what the final state looks like *)
+  destruct (route2_spec (negb sd) os (w_nd (negb sd) n' s2)) as (R1 & R2 & R3 & R4 & R5 & R6).
+  assert (F1 : nd (route2 (negb sd) os (w_nd (negb sd) n' s2)) (negb sd) = n').
+  { rewrite nd_route2. unfold s2, s1. destruct (reply_id_of m); destruct sd; reflexivity. }
+  assert (F2 : nd (route2 (negb sd) os (w_nd (negb sd) n' s2)) sd = A).
+  { rewrite nd_route2. unfold s2, s1, A. destruct (reply_id_of m); destruct sd; reflexivity. }
+  assert (F3 : ch (route2 (negb sd) os (w_nd (negb sd) n' s2)) (negb sd) = ch s (negb sd) ++ msgs_of os).
+  { rewrite R3. f_equal. unfold s2, s1. destruct (reply_id_of m); destruct sd; reflexivity. }
+  assert (F4 : ch (route2 (negb sd) os (w_nd (negb sd) n' s2)) sd = rest).
+  { rewrite negb_negb in R4. rewrite R4. unfold s2, s1. destruct (reply_id_of m); destruct sd; reflexivity. }
+  assert (F5 : cp (route2 (negb sd) os (w_nd (negb sd) n' s2)) (negb sd) =
+               (match reply_id_of m with Some id => sdel N.eqb id (cp s (negb sd)) | None => cp s (negb sd) end) ++ reqids_of os).
+  { rewrite R5. f_equal. unfold s2, s1. destruct (reply_id_of m); destruct sd; reflexivity. }
+  assert (F6 : cp (route2 (negb sd) os (w_nd (negb sd) n' s2)) sd = cp s sd).
+  { rewrite negb_negb in R6. rewrite R6. unfold s2, s1. destruct (reply_id_of m); destruct sd; reflexivity. }
+  assert (HTB : TInv B) by apply HB.
+  pose proof (step_TInv _ _ _ _ H HTB) as HT'.
+  (* per message kind: the receiver's node facts and the two directions *)
+  assert (Hmain : NodeOK n' (n_name A) /\ n_name n' = n_name B /\
+                  Dir A n' rest (ch s (negb sd) ++ msgs_of os) (cp s sd) /\
+                  Dir n' A (ch s (negb sd) ++ msgs_of os) rest
+                      ((match reply_id_of m with Some id => sdel N.eqb id (cp s (negb sd)) | None => cp s (negb sd) end) ++ reqids_of os)).
+  { destruct m as [p0 s0 a j|id p0 s0 f|id ok|p0 s0]; simpl in H; simpl reply_id_of.
+    - (* signal *)
+      assert (E : n' = deliver_remote B (n_name A) p0 s0 a j /\ os = []) by (inversion H; auto). destruct E as [-> ->].
+      assert (T : tabpart (deliver_remote B (n_name A) p0 s0 a j) = tabpart B /\ n_peers (deliver_remote B (n_name A) p0 s0 a j) = n_peers B).
+      { unfold deliver_remote. destruct (alookup str_eqb (key3 (n_name A) p0 s0) (n_lsubs B)); auto. }
+      destruct T as [T Tp]. destruct (tabpart_facts _ _ T) as (E1 & E2 & E3 & E4 & E5 & E6).
+      split; [apply (NodeOK_frame B); auto; rewrite E3; apply HB|]. split; [exact E1|]. simpl. split.
+      + apply (dir_frame_Y A B); [eapply dir_pop_cxy; [exact HDa | reflexivity] | exact E1 | | | intros m0 []].
+        * intro c. unfold can_send. rewrite Tp. reflexivity.
+        * intros pp ss. unfold Rk. rewrite E6. reflexivity.
+      + apply (dir_frame_X' B); [eapply dir_pop_cyx; [exact HDb | reflexivity | reflexivity] | exact E1 | | | | intros m0 []].
+        * intro c. unfold can_send. rewrite Tp. reflexivity.
+        * intro id. rewrite E2. reflexivity.
+        * intros pp ss. unfold Lk, Pk. rewrite E5, E3. auto.
+    - (* subscribe / unsubscribe request *)
+      assert (E : (n', os) = handle_sub_request B (n_name A) id p0 s0 f) by (inversion H; reflexivity).
+      pose proof (dir_deliver_req A B id p0 s0 f rest (ch s (negb sd)) (cp s sd) HDa HA Hup) as Hd. cbv zeta in Hd.
+      destruct (sub_request_spec B (n_name A) id p0 s0 f) as (S1 & S2 & S3 & S4 & S5 & S6 & S7 & S8 & S9 & S10).
+      rewrite <- E in *. simpl in *.
+      split; [apply (NodeOK_frame B); auto; rewrite S2; apply HB|]. split; [exact S5|]. split; [exact Hd|].
+      assert (Hr : reqids_of os = []) by (rewrite S8; unfold send_to; destruct (can_send B (n_name A)); reflexivity).
+      rewrite Hr. apply (dir_frame_X' B); [eapply dir_pop_cyx; [exact HDb | reflexivity | reflexivity] | exact S5 | | | |].
+      * intro c. unfold can_send. rewrite S4. reflexivity.
+      * intro i. rewrite S3. reflexivity.
+      * intros pp ss. unfold Lk, Pk. rewrite S1, S2. auto.
+      * intros m0 Hm0. rewrite S8 in Hm0. unfold send_to in Hm0. destruct (can_send B (n_name A)); simpl in Hm0; [|destruct Hm0].
+        destruct Hm0 as [<-|[]]. reflexivity.
+    - (* reply *)
+      assert (E : (n', os) = handle_reply B id ok) by (inversion H; reflexivity).
+      pose proof (dir_deliver_reply B A (ch s (negb sd)) id ok rest (cp s (negb sd)) HDb HB Hup) as Hd. cbv zeta in Hd.
+      destruct (handle_reply_node B (n_name A) id ok HB) as [N1 N2].
+      pose proof (handle_reply_msgs B id ok) as Hm.
+      rewrite <- E in *. simpl in *.
+      split; [exact N1|]. split; [apply N2|]. split; [|exact Hd].
+      apply (dir_frame_Y A B); [eapply dir_pop_cxy; [exact HDa | reflexivity] | apply N2 | | |].
+      * intro c. apply can_send_same. exact N2.
+      * intros pp ss. unfold Rk. destruct N2 as (N2 & _). rewrite N2. reflexivity.
+      * intros m0 Hm0. specialize (Hm m0 Hm0). destruct m0; try discriminate. auto.
+    - (* removed *)
+      assert (E : n' = w_lsubs (aremove str_eqb (key3 (n_name A) p0 s0) (n_lsubs B)) B /\ os = []) by (inversion H; auto).
+      destruct E as [-> ->]. simpl.
+      split; [apply (NodeOK_frame B); auto; apply HB|]. split; [reflexivity|]. split.
+      + apply (dir_frame_Y A B); [eapply dir_pop_cxy; [exact HDa | reflexivity] | reflexivity | | | intros m0 []].
+        * intro c. reflexivity.
+        * intros pp ss. reflexivity.
+      + rewrite !app_nil_r. apply dir_deliver_removed; assumption. }
+  destruct Hmain as (M1 & M2 & M3 & M4).
+  intro d. destruct (Bool.bool_dec d sd) as [->|Hne].
+  - rewrite F1, F2, F3, F4, F6. rewrite M2. split; [exact HA | exact M3].
+  - assert (d = negb sd) by (destruct d, sd; try reflexivity; contradiction). subst d. rewrite negb_negb.
+    rewrite F1, F2, F3, F4, F5. split; [exact M1 | exact M4].
+Qed.
+
+(* --- connect --- *)
+Lemma can_send_sadd n x c : can_send (w_peers (sadd str_eqb x (n_peers n)) n) c = str_eqb c x || can_send n c.
+Proof. unfold can_send. simpl. apply smem_sadd_S. Qed.
+
+Lemma step2_connect s :
+  SInv2 s -> up s true = false -> up s false = false ->
+  SInv2 (w_ch true [] (w_ch false [] (w_nd false (w_peers (sadd str_eqb (n_name (sA s)) (n_peers (sB s))) (sB s))
+                                        (w_nd true (w_peers (sadd str_eqb (n_name (sB s)) (n_peers (sA s))) (sA s)) s)))).
+Proof.
+  intros HS Hua Hub. destruct (HS true) as [HA HDa]. destruct (HS false) as [HB HDb]. simpl in *. unfold up in *. simpl in *.
+  set (A' := w_peers (sadd str_eqb (n_name (sB s)) (n_peers (sA s))) (sA s)).
+  set (B' := w_peers (sadd str_eqb (n_name (sA s)) (n_peers (sB s))) (sB s)).
+  assert (NA : NodeOK A' (n_name (sB s))).
+  { destruct HA as (H1 & H2 & H3 & H4 & H5). unfold NodeOK. split; [exact H1|]. split; [|auto].
+    intros c Hc. unfold A' in Hc. rewrite can_send_sadd in Hc. apply orb_true_iff in Hc as [Hc|Hc]; [apply str_eqb_spec; exact Hc | apply H2; exact Hc]. }
+  assert (NB : NodeOK B' (n_name (sA s))).
+  { destruct HB as (H1 & H2 & H3 & H4 & H5). unfold NodeOK. split; [exact H1|]. split; [|auto].
+    intros c Hc. unfold B' in Hc. rewrite can_send_sadd in Hc. apply orb_true_iff in Hc as [Hc|Hc]; [apply str_eqb_spec; exact Hc | apply H2; exact Hc]. }
+  intros [|]; simpl.
+  - split; [exact NA|]. eapply (dir_connect (sA s) (sB s)); eauto.
+  - split; [exact NB|]. eapply (dir_connect (sB s) (sA s)); eauto.
+Qed.
+
+(* --- close --- *)
+Lemma step2_close s sd :
+  SInv2 s -> up s sd = true ->
+  let n1 := peer_removed (w_peers (sdel str_eqb (n_name (nd s (negb sd))) (n_peers (nd s sd))) (nd s sd)) (n_name (nd s (negb sd))) in
+  let r := err_replies n1 (cp s sd) in
+  SInv2 (route2 sd (snd r) (w_cp sd [] (w_nd sd (fst r) s))).
+Proof.
+  intros HS Hup n1 r. destruct (HS sd) as [HX HDx]. destruct (HS (negb sd)) as [HY HDy]. rewrite negb_negb in HY, HDy.
+  set (X := nd s sd) in *. set (Y := nd s (negb sd)) in *.
+  pose proof HX as (HTX & HX2 & HX3 & HX4 & HX5).
+  destruct (peer_removed_spec X (n_name Y) HX2) as (P1 & P2 & P3 & P4 & P5 & P6 & P7 & P8 & P9). fold n1 in P1, P2, P3, P4, P5, P6, P7, P8, P9.
+  assert (HT1 : TInv n1).
+  { assert (Hst : node_step X (IPeerRemoved (n_name Y)) = Some (n1, [])) by reflexivity. eapply step_TInv; eauto. }
+  pose proof (err_replies_down (cp s sd) n1 HT1 P1) as Hd. cbv zeta in Hd. fold r in Hd.
+  destruct Hd as (E1 & E2 & E3 & E4 & E5 & E6). rewrite E1.
+  assert (Hn2 : n_name (fst r) = n_name X) by (destruct E2 as (_ & _ & E2 & _); congruence).
+  assert (Hc2 : forall c, can_send (fst r) c = false) by (intro c; rewrite (can_send_same n1 (fst r) c E2); apply P1).
+  assert (Hpid : forall id, nlk id (n_pid (fst r)) = None).
+  { intro id. destruct (nlk id (n_pid n1)) as [key|] eqn:Ek; [|apply E6; exact Ek].
+    apply E5. destruct HDx as (_ & _ & D3 & _). rewrite P3 in Ek. eapply D3; eauto. }
+  assert (NX : NodeOK (fst r) (n_name Y)).
+  { unfold NodeOK. rewrite Hn2. split; [exact E3|]. split; [intros c Hc; rewrite Hc2 in Hc; discriminate|]. split; [exact HX3|]. split; [exact HX4|].
+    intros key q Hk. rewrite (pname_empty_of_pid (fst r) E3 Hpid key) in Hk. discriminate. }
+  simpl route2.
+  intro d. destruct (Bool.bool_dec d sd) as [->|Hne].
+  - replace (nd (w_cp sd [] (w_nd sd (fst r) s)) sd) with (fst r) by (destruct sd; reflexivity).
+    replace (nd (w_cp sd [] (w_nd sd (fst r) s)) (negb sd)) with Y by (unfold Y; destruct sd; reflexivity).
+    replace (ch (w_cp sd [] (w_nd sd (fst r) s)) sd) with (ch s sd) by (destruct sd; reflexivity).
+    replace (ch (w_cp sd [] (w_nd sd (fst r) s)) (negb sd)) with (ch s (negb sd)) by (destruct sd; reflexivity).
+    replace (cp (w_cp sd [] (w_nd sd (fst r) s)) sd) with (@nil N) by (destruct sd; reflexivity).
+    split; [exact NX|]. apply (dir_close_X X (fst r) Y _ _ (cp s sd)); auto.
+    intros p s0. unfold Lk. rewrite E4. apply P7.
+  - assert (d = negb sd) by (destruct d, sd; try reflexivity; contradiction). subst d. rewrite negb_negb.
+    replace (nd (w_cp sd [] (w_nd sd (fst r) s)) sd) with (fst r) by (destruct sd; reflexivity).
+    replace (nd (w_cp sd [] (w_nd sd (fst r) s)) (negb sd)) with Y by (unfold Y; destruct sd; reflexivity).
+    replace (ch (w_cp sd [] (w_nd sd (fst r) s)) sd) with (ch s sd) by (destruct sd; reflexivity).
+    replace (ch (w_cp sd [] (w_nd sd (fst r) s)) (negb sd)) with (ch s (negb sd)) by (destruct sd; reflexivity).
+    replace (cp (w_cp sd [] (w_nd sd (fst r) s)) (negb sd)) with (cp s (negb sd)) by (destruct sd; reflexivity).
+    rewrite Hn2. split; [exact HY|]. apply (dir_close_Y Y X); auto.
+    intros p s0. unfold Rk. destruct E2 as (E2 & _). rewrite E2. apply P9.
+Qed.
+
+(* --- every step --- *)
+Lemma step2_SInv2 s l s' os : step2 s l = Some (s', os) -> label2_ok l -> SInv2 s -> SInv2 s'.
+Proof.
+  intros H Hl HS. destruct l as [sd i|sd| |sd]; unfold step2 in H.
+  - destruct (api_input i) eqn:Hapi; [|discriminate].
+    destruct (node_step (nd s sd) i) as [[n' os']|] eqn:E; [|discriminate]. inversion H; subst.
+    eapply step2_node; eauto.
+  - destruct (ch s sd) as [|m rest] eqn:Ec; [discriminate|].
+    destruct (up s (negb sd)) eqn:Hup; [|discriminate]. cbv zeta in H.
+    match type of H with match node_step ?a ?b with _ => _ end = _ => destruct (node_step a b) as [[n' os']|] eqn:E; [|discriminate] end.
+    inversion H; subst.
+    assert (E' : node_step (nd s (negb sd)) (IRecv (n_name (nd s sd)) m) = Some (n', os)).
+    { rewrite <- E. f_equal; destruct (reply_id_of m); destruct sd; reflexivity. }
+    exact (step2_deliver s sd m rest n' os HS Ec Hup E').
+  - destruct (negb (up s true) && negb (up s false)) eqn:Eu; [|discriminate].
+    apply andb_true_iff in Eu as [Eu1 Eu2]. apply negb_true_iff in Eu1, Eu2.
+    simpl in H. inversion H; subst. apply step2_connect; assumption.
+  - destruct (up s sd) eqn:Hup; [|discriminate]. simpl in H.
+    pose proof (step2_close s sd HS Hup) as Hc. cbv zeta in Hc.
+    destruct (err_replies _ (cp s sd)) as [n2 os2]. inversion H; subst. exact Hc.
+Qed.
+
+Lemma run2_SInv2 ls : forall s s', run2 s ls = Some s' -> Forall label2_ok ls -> SInv2 s -> SInv2 s'.
+Proof.
+  induction ls as [|l r IH]; simpl; intros s s' H Hf HS.
+  - inversion H; subst. exact HS.
+  - destruct (step2 s l) as [[s1 os]|] eqn:E; [|discriminate]. inversion Hf; subst.
+    eapply IH; eauto. eapply step2_SInv2; eauto.
+Qed.
+
+Lemma init2_SInv2 a b oa ob : nodot a = true -> nodot b = true -> a <> b -> SInv2 (init2 a b oa ob).
+Proof.
+  intros Ha Hb Hne.
+  assert (Hn : forall x o objs, nodot x = true -> nodot o = true -> o <> x -> NodeOK (init_node x objs) o).
+  { intros x o objs Hx Ho Hox. unfold NodeOK. split; [apply init_TInv; exact Hx|]. split; [intros c Hc; discriminate|].
+    split; [exact Ho|]. split; [exact Hox|]. intros key q Hk. discriminate. }
+  assert (Hd : forall x y ox oy, Dir (init_node x ox) (init_node y oy) [] [] []).
+  { intros x y ox oy. unfold Dir. simpl.
+    split; [intros _; split; [reflexivity|]; split; reflexivity|]. split; [intros _ p s; reflexivity|].
+    split; [intros id key H; discriminate|]. split; [intros _ id ok []|]. split; [intros id p s f []|]. split; [intros p s []|].
+    intros p s Hp. unfold KeyInv. simpl. discriminate. }
+  intros [|]; simpl; (split; [apply Hn; auto | apply Hd]).
+Qed.
+
+(* ================================================================ the theorems *)
+Definition reach2 (a b : name) (oa ob : list name) (s : sys2) : Prop :=
+  exists ls, run2 (init2 a b oa ob) ls = Some s /\ Forall label2_ok ls.
+
+Lemma reach2_SInv2 a b oa ob s : nodot a = true -> nodot b = true -> a <> b -> reach2 a b oa ob s -> SInv2 s.
+Proof. intros Ha Hb Hne (ls & Hr & Hf). eapply run2_SInv2; eauto. apply init2_SInv2; assumption. Qed.
+
+(* no request outstanding at side sd *)
+Definition no_pending (s : sys2) (sd : bool) : Prop := n_pid (nd s sd) = [] .
+
+Lemma quiescent a b oa ob s sd p sg :
+  nodot a = true -> nodot b = true -> a <> b -> reach2 a b oa ob s ->
+  ch s true = [] -> ch s false = [] -> n_pid (nd s sd) = [] ->
+  up s sd = up s (negb sd) ->
+  nodot p = true ->
+  (Rk (nd s (negb sd)) (n_name (nd s sd)) p sg = true <->
+   Lk (nd s sd) (n_name (nd s (negb sd))) p sg <> None).
+Proof.
+  intros Ha Hb Hne Hr Hc1 Hc2 Hpid Hup Hp. simpl in Hc1, Hc2.
+  pose proof (reach2_SInv2 a b oa ob s Ha Hb Hne Hr) as HS. destruct (HS sd) as [HX HD].
+  destruct HD as (D1 & D2 & D3 & D5 & D6 & D7 & DI). unfold up in Hup. rewrite negb_negb in Hup.
+  destruct (can_send (nd s sd) (n_name (nd s (negb sd)))) eqn:Hu.
+  - pose proof (DI p sg Hp) as K. unfold KeyInv in K. specialize (K Hu).
+    assert (HP : Pk (nd s sd) (n_name (nd s (negb sd))) p sg = None).
+    { unfold Pk. apply pname_empty_of_pid; [apply HX|]. intro id. rewrite Hpid. reflexivity. }
+    rewrite HP in K. destruct K as [_ K]. specialize (K (eq_sym Hup)).
+    replace (ch s (negb sd)) with (@nil msg) in K by (destruct sd; simpl; congruence). simpl in K. exact K.
+  - destruct (D1 eq_refl) as (_ & A2 & _). rewrite A2. rewrite (D2 (eq_sym Hup)). split; [discriminate | intro H; exfalso; apply H; reflexivity].
+Qed.
+
+(* a reply that a context is about to read always belongs to one of its pending requests *)
+Lemma reply_known a b oa ob s sd id ok :
+  nodot a = true -> nodot b = true -> a <> b -> reach2 a b oa ob s ->
+  up s sd = true -> In (MSubReply id ok) (ch s (negb sd)) ->
+  exists key q, nlk id (n_pid (nd s sd)) = Some key /\ slk key (n_pname (nd s sd)) = Some q.
+Proof.
+  intros Ha Hb Hne Hr Hu Hin.
+  pose proof (reach2_SInv2 a b oa ob s Ha Hb Hne Hr) as HS. destruct (HS sd) as [HX HD].
+  destruct HD as (_ & _ & _ & D5 & _). destruct (D5 Hu id ok Hin) as [key Hk].
+  destruct (NodeOK_pending _ _ _ _ HX Hk) as (q & Hq & _). eauto.
+Qed.
+
+(* when nothing is in flight, nothing is pending: no subscriber is left waiting *)
+Lemma empty_channels_no_pending a b oa ob s sd :
+  nodot a = true -> nodot b = true -> a <> b -> reach2 a b oa ob s ->
+  ch s true = [] -> ch s false = [] ->
+  forall id, nlk id (n_pid (nd s sd)) = None.
+Proof.
+  intros Ha Hb Hne Hr Hc1 Hc2 id. simpl in Hc1, Hc2.
+  pose proof (reach2_SInv2 a b oa ob s Ha Hb Hne Hr) as HS. destruct (HS sd) as [HX HD].
+  destruct HD as (D1 & D2 & D3 & D5 & D6 & D7 & DI).
+  destruct (can_send (nd s sd) (n_name (nd s (negb sd)))) eqn:Hu; [|apply (D1 eq_refl)].
+  destruct (nlk id (n_pid (nd s sd))) as [key|] eqn:Ek; [|reflexivity]. exfalso.
+  destruct (NodeOK_pending _ _ _ _ HX Ek) as (q & Hq & Hkey & Hpub & _).
+  pose proof (DI (pq_pub q) (pq_sig q) Hpub) as K. unfold KeyInv in K. specialize (K Hu).
+  unfold Pk in K. rewrite <- Hkey, Hq in K. destruct K as (id0 & _ & [(Ka & _)|(_ & pre & ok & suf & E & _)]).
+  - replace (ch s sd) with (@nil msg) in Ka by (destruct sd; simpl; congruence). discriminate.
+  - replace (ch s (negb sd)) with (@nil msg) in E by (destruct sd; simpl; congruence). destruct pre; discriminate.
+Qed.
+
+(* after a context has closed (or lost) the connection nothing about the peer is left in it *)
+Lemma closed_end_clean a b oa ob s sd :
+  nodot a = true -> nodot b = true -> a <> b -> reach2 a b oa ob s -> up s sd = false ->
+  (forall id, nlk id (n_pid (nd s sd)) = None) /\
+  (forall p sg, Lk (nd s sd) (n_name (nd s (negb sd))) p sg = None) /\
+  (forall p sg, Rk (nd s sd) (n_name (nd s (negb sd))) p sg = false) /\
+  cp s sd = [].
+Proof.
+  intros Ha Hb Hne Hr Hu.
+  pose proof (reach2_SInv2 a b oa ob s Ha Hb Hne Hr) as HS. destruct (HS sd) as [HX HD]. destruct (HS (negb sd)) as [_ HD'].
+  rewrite negb_negb in HD'. destruct HD as (D1 & _). destruct HD' as (_ & D2 & _). unfold up in Hu.
+  destruct (D1 Hu) as (A1 & A2 & A3). auto.
+Qed.
